@@ -1,46 +1,201 @@
-"""C04 — signatures: inputs verify under SIGHASH_ALL; channel signatures bind claim  (draft)
+"""C04 — signatures: inputs verify under SIGHASH_ALL; channel signatures bind the claim.
+
+Deductive part (symbolic execution of the real code; SHA-256 / RIPEMD-160, ECDSA over secp256k1 and the Base58 numeral
+are uninterpreted functions with exactly the facts listed in TRUSTED; every obligation is discharged by SMT):
+  * `Transaction._serialize_for_signature(i)` (with `Input.serialize_to`, `_serialize_outputs`, `signature_hash_type`,
+    the `BCDataStream` primitives) for 1x1, 2x1, 1x2 and 2x2 transactions, every 32-bit version / sequence / lock time /
+    previous index, 64-bit amounts, spent scripts and output scripts of every compact-size range, arbitrary scripts
+    already sitting in the inputs and warm serialisation caches: the bytes are the SIGHASH_ALL pre-image of the Bitcoin
+    definition - version, every input with the SPENT output's script in position i and EMPTY scripts elsewhere, every
+    output, lock time, the 4-byte little-endian hash type 1.  [preimage]
+  * `Transaction.sign` (with `ensure_all_have_same_ledger_and_wallet`, the real `bip32.PrivateKey.sign / public_key /
+    from_bytes`, `bip32.PublicKey.pubkey_bytes`, `InputScript.generate`, `_reset`, `raw`, `id`) for 1 and 2 inputs
+    spending P2PKH outputs to arbitrary 20-byte hashes, against a duck-typed ledger whose address table maps the address
+    of each of two wallet keys to the key: every input ends up as <sig || 01> <pubkey> where pubkey is the public key
+    of a wallet key, hash160(pubkey) is what the spent output pays to, sig is the DER ECDSA signature by that key of
+    double-SHA256(pre-image_i) and pre-image_i is the specification pre-image with the OTHER inputs empty and the
+    CURRENT outputs (history: scripts left from an earlier signing, caches warm, an output script regenerated after the
+    caches were filled; interleaving: somebody reads id / raw of the half-signed transaction while sign awaits the key
+    lookup); afterwards raw / id are those of the signed transaction; an address without a wallet key is
+    refused (AssertionError) and nothing else is raised.  [sign]
+  * channel signing `Output.sign` then `Output.is_signed_by` (with `claim_hash`, `TXORef.hash`, `signable`, `claim`,
+    `support`, `set_channel_private_key`, `Signable.to_bytes/__len__/__bytes__`, `Claim.channel`,
+    `Channel.public_key_bytes`, `is_signature_valid`, `get_signature_digest`, the real `PrivateKey.sign_compact` and
+    `PublicKey.from_compressed / verify` down to the libsecp256k1 calls, `OutputScript.generate`) for claims, claim
+    updates and supports with arbitrary message bytes, channels that are new claims or updates, two-input transactions:
+    the signature is the ECDSA signature by the channel key of SHA256(first input tx hash || LE32 index || channel claim
+    hash || message), the channel hash stored is the channel's claim hash (hash160(tx hash || BE32 index) resp. the updated
+    claim id), the script is regenerated around the envelope 01 || channel hash || signature || message, validation against
+    the signing channel is True and validation against any other channel output is ECDSA verification under THAT
+    channel's key (not under the remembered signer).  [channel.sign-then-validate]
+  * `Output.is_signed_by` on an arbitrary signed object (signature, channel hash, message, legacy payload, both inputs,
+    claim address, channel key all free): the result is ECDSA verification, under the key published by the channel
+    argument, of exactly the specification digest - the new format above, or, when the claim carries a payload of the
+    pre-2019 format, SHA256(decoded claim address (25) || legacy payload || channel hash reversed); a signature whose r or
+    s is not below the group order is refused (AssertionError), an invalid channel key raises ValueError.  Hence, under
+    the named hypotheses H1-H2 in TRUSTED, an object whose content, channel, signature or first input was changed does
+    not validate.  [channel.validate]
+  * the stored envelope `Signable.to_bytes / from_bytes / clear_signature`  [channel.envelope]; the digest input layout is
+    injective in (first input, channel hash, message) resp. (address, payload, channel hash)  [channel.digest-layout-injective].
+
+Bounded stand-ins (run-time checks of the real code with real coincurve keys, never counted as proved):
+  * real Ledger + sqlite Database + two Accounts: transactions of 1..4 inputs from different keys and accounts, P2PKH,
+    claim, update, support, channel and purchase outputs, spending plain and claim outputs, signed by the real
+    `Transaction.sign` (directly and through `Transaction.create`): every input is checked with an INDEPENDENT pure-Python
+    secp256k1 ECDSA verifier, an independent transaction parser and an independently computed SIGHASH_ALL digest; the
+    public key hashes to the spent output's hash; a re-signed transaction and a transaction changed after signing.
+    [real.transaction-sign]
+  * real protobuf claims signed by real channel keys: validation after serialisation and re-parsing, independent
+    verification of the envelope, and every single-field / single-bit mutation (message bits, channel hash bits,
+    signature bits, other channel key, other first input, API-level content change) stops validating.  [real.channel-sign]
+  * the recorded signatures of earlier releases (three claim / channel pairs from tests/unit/wallet/test_schema_signing.py,
+    one in the 2018 legacy claim format, two with DER-wrapped channel keys) still validate, also under the independent
+    verifier, and stop validating under single-bit mutations.  [legacy-vectors]
 """
+import hashlib
 import z3
+from binascii import hexlify, unhexlify
+
 from pyvc.api import *
 from pyvc.values import *
 from pyvc.ops import exc, mk_bool, unlift
 from pyvc.segs import VSegs, segs_of, to_vbytes, total_len
 from pyvc.speclib import implies
-from binascii import hexlify
+from pyvc import builtins_model2 as _bm2
+
 from coincurve import PrivateKey as cPrivateKey, PublicKey as cPublicKey
+from coincurve.utils import lib as _lib, ffi as _ffi
+
+from lbry.crypto.base58 import Base58
+from lbry.schema.claim import Claim
+from lbry.schema.support import Support
 from lbry.wallet.bip32 import PrivateKey, PublicKey
-from lbry.crypto.hash import hash160
-from lbry.wallet.transaction import Transaction, Input, Output, TXORef, TXORefResolvable
-from lbry.wallet.script import InputScript, OutputScript
-from lbry.wallet.hash import TXRefImmutable
-from lbry.crypto.hash import sha256, double_sha256
 from lbry.wallet.constants import NULL_HASH32
-from contracts.c05 import le, enc_compact, enc_input, enc_output, enc_tx
+from lbry.wallet.hash import TXRefImmutable
+from lbry.wallet.ledger import Ledger
+from lbry.wallet.script import InputScript, OutputScript
+from lbry.wallet.transaction import Transaction, Input, Output, TXORef, TXORefResolvable
 
 U32 = TInt(0, 2 ** 32 - 1)
 U64 = TInt(0, 2 ** 64 - 1)
 HASH = TBytes(length=32)
+H160 = TBytes(length=20)
 SCRIPT = TBytes(maxlen=2 ** 32 - 1)
 SMALL = TBytes(maxlen=252)
-SIG = TBytes(maxlen=75)
-PUB = TBytes(length=33)
+MESSAGE = TBytes(maxlen=60000)
+
+# secp256k1 group order (SEC 2 v2, section 2.4.1)
+N = 0xFFFFFFFFFFFFFFFFFFFFFFFFFFFFFFFEBAAEDCE6AF48A03BBFD25E8CD0364141
 
 
-# ---------------------------------------------------------------- specification (Bitcoin SIGHASH_ALL, legacy serialisation)
+# ====================================================================================================================
+# Specification: Bitcoin wire format, SIGHASH_ALL, script pushes, LBRY channel-signature digests
+# ====================================================================================================================
+
+def sha256(b):
+    """SPEC: SHA-256 (hashlib directly, not the repository's wrappers in lbry/crypto/hash.py, which are under contract)"""
+    return hashlib.sha256(b).digest()
+
+
+def double_sha256(b):
+    """SPEC: Bitcoin's hash of signed data and transaction ids"""
+    return sha256(sha256(b))
+
+
+def hash160(b):
+    """SPEC: Bitcoin's address hash RIPEMD-160(SHA-256(x))"""
+    return hashlib.new('ripemd160', sha256(b)).digest()
+
+
+def le(v, n):
+    return v.to_bytes(n, 'little')
+
+
+def be32(n):
+    return n.to_bytes(4, 'big')
+
+
+def enc_compact(n):
+    if n < 253:
+        return le(n, 1)
+    if n <= 0xFFFF:
+        return b'\xfd' + le(n, 2)
+    if n <= 0xFFFFFFFF:
+        return b'\xfe' + le(n, 4)
+    return b'\xff' + le(n, 8)
+
+
+def enc_tx(version, ins, outs, locktime):
+    """Bitcoin transaction encoding; ins: (previous tx hash, previous index, script, sequence), outs: (amount, script)"""
+    raw = le(version, 4) + enc_compact(len(ins))
+    for i in ins:
+        raw = raw + i[0] + le(i[1], 4) + enc_compact(len(i[2])) + i[2] + le(i[3], 4)
+    raw = raw + enc_compact(len(outs))
+    for o in outs:
+        raw = raw + le(o[0], 8) + enc_compact(len(o[1])) + o[1]
+    return raw + le(locktime, 4)
+
 
 def sighash_all_preimage(version, ins, outs, locktime, i, script_code):
-    """ins: (prev hash, prev index, current script, sequence); the pre-image carries script_code in input i and EMPTY
-    scripts in every other input, every output, the lock time and the 4-byte little-endian hash type 1"""
+    """what SIGHASH_ALL signs for input i: the transaction with script_code (the script of the output being spent) in input i
+    and EMPTY scripts in every other input, all outputs, the lock time, then the hash type 1 as 4 little-endian bytes"""
     blanked = [(x[0], x[1], script_code if k == i else b'', x[3]) for k, x in enumerate(ins)]
     return enc_tx(version, blanked, outs, locktime) + le(1, 4)
 
 
-# ---------------------------------------------------------------- independent secp256k1 ECDSA (pure Python, no library code)
-# Curve parameters from SEC 2 v2 section 2.4.1 (secp256k1); verification as in SEC 1 v2 section 4.1.4; DER as in X.690.
-# Only ever run natively (specifications reach it through ecdsa_verifies / compact_sign, which are uninterpreted symbolically).
+def p2pkh(pubkey_hash):
+    """OP_DUP OP_HASH160 <20> OP_EQUALVERIFY OP_CHECKSIG"""
+    return b'\x76\xa9\x14' + pubkey_hash + b'\x88\xac'
+
+
+def push(data):
+    """minimal script push of up to 75 bytes"""
+    return le(len(data), 1) + data
+
+
+def push_data_spec(data):
+    """script push of arbitrary data with the minimal push opcode"""
+    n = len(data)
+    if n < 76:
+        return le(n, 1) + data
+    if n <= 0xFF:
+        return b'\x4c' + le(n, 1) + data
+    if n <= 0xFFFF:
+        return b'\x4d' + le(n, 2) + data
+    return b'\x4e' + le(n, 4) + data
+
+
+def new_preimage_spec(first_hash, first_pos, channel_hash, message):
+    return first_hash + le(first_pos, 4) + channel_hash + message
+
+
+def new_digest_spec(first_hash, first_pos, channel_hash, message):
+    """SHA-256 over: outpoint of the transaction's first input (tx hash || LE32 index), channel claim hash (20), message"""
+    return sha256(new_preimage_spec(first_hash, first_pos, channel_hash, message))
+
+
+def legacy_preimage_spec(raw_address, unsigned_payload, channel_hash):
+    return raw_address + unsigned_payload + channel_hash[::-1]
+
+
+def legacy_digest_spec(pubkey_hash, unsigned_payload, channel_hash):
+    """signatures of earlier releases (lbryschema v1): SHA-256 over the decoded claim address (version byte 0x55, hash160, 4
+    checksum bytes), the claim serialised without its signature, and the certificate id (channel claim hash reversed)"""
+    raw_address = b'\x55' + pubkey_hash
+    return sha256(legacy_preimage_spec(raw_address + double_sha256(raw_address)[:4], unsigned_payload, channel_hash))
+
+
+def envelope_spec(channel_hash, signature, message):
+    """the signed claim as stored in the script: version byte 1, channel hash (20), signature r||s (64), message"""
+    return b'\x01' + channel_hash + signature + message
+
+
+# ====================================================================================================================
+# Independent secp256k1 ECDSA (pure Python, no library code).  Curve parameters from SEC 2 v2 section 2.4.1;
+# verification as in SEC 1 v2 section 4.1.4; DER as in X.690.  Only ever run natively.
+# ====================================================================================================================
 
 EC_P = 0xFFFFFFFFFFFFFFFFFFFFFFFFFFFFFFFFFFFFFFFFFFFFFFFFFFFFFFFEFFFFFC2F
-EC_N = 0xFFFFFFFFFFFFFFFFFFFFFFFFFFFFFFFEBAAEDCE6AF48A03BBFD25E8CD0364141
 EC_G = (0x79BE667EF9DCBBAC55A06295CE870B07029BFCDB2DCE28D959F2815B16F81798,
         0x483ADA7726A3C4655DA4FBFC0E1108A8FD17B448A68554199C47D08FFB10D4B8)
 
@@ -85,12 +240,12 @@ def ec_decompress(pub):
 
 def py_ecdsa_verify_rs(pub, r, s, digest):
     q = ec_decompress(pub)
-    if q is None or not (1 <= r < EC_N and 1 <= s < EC_N) or len(digest) != 32:
+    if q is None or not (1 <= r < N and 1 <= s < N) or len(digest) != 32:
         return False
-    w = pow(s, -1, EC_N)
+    w = pow(s, -1, N)
     z = int.from_bytes(digest, 'big')
-    x = ec_add(ec_mul(z * w % EC_N, EC_G), ec_mul(r * w % EC_N, q))
-    return x is not None and x[0] % EC_N == r
+    x = ec_add(ec_mul(z * w % N, EC_G), ec_mul(r * w % N, q))
+    return x is not None and x[0] % N == r
 
 
 def py_ecdsa_verify(pub, signature, digest):
@@ -103,7 +258,7 @@ def py_ecdsa_verify(pub, signature, digest):
 def der_decode(der):
     """strict DER SEQUENCE { INTEGER r, INTEGER s } -> (r, s); ValueError otherwise"""
     def integer(at):
-        if der[at] != 0x02:
+        if at + 2 > len(der) or der[at] != 0x02:
             raise ValueError('INTEGER expected')
         n = der[at + 1]
         body = der[at + 2:at + 2 + n]
@@ -119,90 +274,21 @@ def der_decode(der):
     return r, s
 
 
-def spent_output(h, pos, amount, script):
-    return Output(amount, OutputScript(script), tx_ref=TXRefImmutable.from_hash(h, -1), position=pos)
-
-
-def make_preimage_proof(n_in, n_out):
-    types = dict(version=U32, locktime=U32)
-    for i in range(n_in):
-        types.update({f"h{i}": HASH, f"pos{i}": U32, f"spent{i}": SCRIPT, f"sig{i}": SIG, f"pk{i}": PUB, f"seq{i}": U32})
-    for j in range(n_out):
-        types.update({f"amt{j}": U64, f"os{j}": SCRIPT if n_in + n_out <= 3 else SMALL})
-
-    def requires(**kw):
-        ok = True
-        for i in range(n_in):
-            ok = ok and kw[f"h{i}"] != NULL_HASH32
-        return ok
-
-    def run(**kw):
-        tx = Transaction(version=kw['version'], locktime=kw['locktime'])
-        tx.add_inputs([Input(TXORefResolvable(spent_output(kw[f"h{i}"], kw[f"pos{i}"], 1000 + i, kw[f"spent{i}"])),
-                             InputScript.redeem_pubkey_hash(kw[f"sig{i}"], kw[f"pk{i}"]), kw[f"seq{i}"]) for i in range(n_in)])
-        tx.add_outputs([Output(kw[f"amt{j}"], OutputScript(kw[f"os{j}"])) for j in range(n_out)])
-        before = tx.raw                                 # history: the serialisation caches are warm
-        pre = [tx._serialize_for_signature(i) for i in range(n_in)]
-        return pre, before, tx.raw
-
-    def ensures_is_sighash_all_preimage(result, **kw):
-        ins = [(kw[f"h{i}"], kw[f"pos{i}"], b'', kw[f"seq{i}"]) for i in range(n_in)]
-        outs = [(kw[f"amt{j}"], kw[f"os{j}"]) for j in range(n_out)]
-        ok = len(result[0]) == n_in
-        for i in range(n_in):
-            ok = ok and result[0][i] == sighash_all_preimage(kw['version'], ins, outs, kw['locktime'], i, kw[f"spent{i}"])
-        return ok
-
-    def ensures_transaction_untouched(result):
-        return result[1] == result[2]
-
-    import inspect
-    params = [inspect.Parameter(n, inspect.Parameter.POSITIONAL_OR_KEYWORD) for n in types]
-    run.__signature__ = inspect.Signature(params)
-    requires.__signature__ = inspect.Signature([q for q in params if q.name.startswith('h')])
-    ensures_is_sighash_all_preimage.__signature__ = inspect.Signature(
-        [inspect.Parameter('result', inspect.Parameter.POSITIONAL_OR_KEYWORD)] + params)
-
-    def samples():
-        import itertools
-        lens = [0, 25, 252, 253, 65536]
-        for combo in itertools.product(lens, repeat=n_in):
-            d = dict(version=1, locktime=0)
-            for i in range(n_in):
-                d.update({f"h{i}": bytes([i + 1]) * 32, f"pos{i}": i, f"spent{i}": bytes((k * 5 + 1) % 256 for k in range(combo[i])),
-                          f"sig{i}": bytes([0x30 + i]) * 72, f"pk{i}": bytes([2 + i]) * 33, f"seq{i}": 0xFFFFFFFF - i})
-            for j in range(n_out):
-                d.update({f"amt{j}": 1000 + j, f"os{j}": bytes((k * 7 + 2) % 256 for k in range(25 + j))})
-            yield d
-
-    body = dict(inputs=types, requires=staticmethod(requires), run=staticmethod(run), samples=staticmethod(samples),
-                ensures_is_sighash_all_preimage=staticmethod(ensures_is_sighash_all_preimage),
-                ensures_transaction_untouched=staticmethod(ensures_transaction_untouched),
-                note="spent-script lengths 0/25/252/253/65536 in every input position",
-                __doc__=f"{n_in} input(s) x {n_out} output(s): the bytes handed to the signer for input i are the SIGHASH_ALL pre-image")
-    proof("C04", f"preimage[{n_in}x{n_out}]")(type('PreimageProof', (), body))
-
-
-for _ni, _no in ((1, 1), (2, 1), (1, 2), (2, 2)):
-    make_preimage_proof(_ni, _no)
-
-
-
-# ================================================================================================
-# Trusted boundary: coincurve / libsecp256k1.  Natively the real library runs; symbolically the calls
+# ====================================================================================================================
+# Trusted boundary: coincurve / libsecp256k1 / Base58 numeral.  Natively the real library runs; symbolically the calls
 # are uninterpreted functions with exactly the facts listed in TRUSTED.
-# ================================================================================================
-
-# secp256k1 group order (SEC 2, section 2.4.1)
-N = 0xFFFFFFFFFFFFFFFFFFFFFFFFFFFFFFFEBAAEDCE6AF48A03BBFD25E8CD0364141
+# ====================================================================================================================
 
 _S = z3.StringSort()
 _B = z3.BoolSort()
-EC_PUB = z3.Function('secp256k1_serP_of_secret', _S, _S)          # secret(32) -> compressed public key (33)
-EC_DER = z3.Function('ecdsa_sign_der', _S, _S, _S)                # secret, digest(32) -> DER signature
-EC_SIG = z3.Function('ecdsa_sign_compact', _S, _S, _S)            # secret, digest(32) -> r||s (64)
-EC_VER = z3.Function('ecdsa_verify_compact', _S, _S, _S, _B)      # pubkey(33), r||s(64), digest(32) -> valid?
+EC_PUB = z3.Function('secp256k1_serP_of_secret', _S, _S)          # secret (32) -> compressed public key (33)
+EC_DER = z3.Function('ecdsa_sign_der', _S, _S, _S)                # secret, digest (32) -> DER signature
+EC_SIG = z3.Function('ecdsa_sign_compact', _S, _S, _S)            # secret, digest (32) -> r||s (64)
+EC_VER = z3.Function('ecdsa_verify_compact', _S, _S, _S, _B)      # public key (33), r||s (64), digest (32) -> valid?
 EC_INRANGE = z3.Function('ecdsa_compact_in_range', _S, _B)        # r, s < n  (what signature_parse_compact accepts)
+EC_SECRET_OK = z3.Function('secp256k1_secret_in_range', _S, _B)   # 0 < secret < n
+EC_POINT_OK = z3.Function('secp256k1_valid_compressed', _S, _B)   # x is on the curve
+B58E = z3.Function('base58_numeral', _S, _S)                      # bytes -> Base58 text
 
 
 def _flat(v):
@@ -218,7 +304,14 @@ def _bytes_term(st, t, n):
     return VSegs([('sym', t, n)])
 
 
-EC_SECRET_OK = z3.Function('secp256k1_secret_in_range', _S, _B)   # 0 < secret < n
+def _known_len(st, v, n):
+    segs = segs_of(v)
+    if segs is None:
+        return False
+    ln = total_len(segs)
+    if isinstance(ln, int):
+        return ln == n
+    return st.entails(z3.simplify(ln) == n)
 
 
 def _atoms(st):
@@ -233,10 +326,19 @@ def _atoms(st):
 
 
 def _known_true(st, atom):
-    """cheap syntactic entailment: the engine prunes branches by arithmetic only, so models look a fact up among the
-    conjuncts of the path condition before they fork (sound: only a branch contradicting a conjunct is dropped)"""
+    """cheap syntactic entailment: the engine prunes branches by arithmetic only, so a model looks a fact up among the
+    conjuncts of the path condition before it forks (sound: only a branch contradicting a conjunct is dropped)"""
     return any(a.eq(atom) for a in _atoms(st))
 
+
+def _assume_point(st, t):
+    st.assume(z3.Length(t) == 33)
+    c0 = z3.StrToCode(z3.SubString(t, 0, 1))
+    st.assume(z3.Or(c0 == 2, c0 == 3))
+    st.assume(EC_POINT_OK(t))
+
+
+# ---- specification-side views of the library (natively: coincurve / the independent verifier)
 
 def valid_secret(k):
     """SPEC: a secp256k1 secret key: 32 bytes, 0 < k < n"""
@@ -254,14 +356,14 @@ def pub_of(secret):
     return cPrivateKey(secret).public_key.format(True)
 
 
-def der_sign(secret, digest):
-    """SPEC: the (deterministic, RFC 6979) DER ECDSA signature of a 32-byte digest"""
-    return cPrivateKey(secret).sign(digest, hasher=None)
-
-
 @model_for(pub_of)
 def _m_pub_of(interp, st, args, kwargs):
     yield st, _bytes_term(st, EC_PUB(_flat(args[0])), 33)
+
+
+def der_sign(secret, digest):
+    """SPEC: the deterministic (RFC 6979) ECDSA signature of a 32-byte digest, DER encoded"""
+    return cPrivateKey(secret).sign(digest, hasher=None)
 
 
 @model_for(der_sign)
@@ -271,6 +373,55 @@ def _m_der_sign(interp, st, args, kwargs):
     yield st, VBytes(t)
 
 
+def compact_sign(secret, digest):
+    """SPEC: the same signature as r||s (32 + 32 bytes, big endian)"""
+    r, s = der_decode(der_sign(secret, digest))
+    return r.to_bytes(32, 'big') + s.to_bytes(32, 'big')
+
+
+@model_for(compact_sign)
+def _m_compact_sign(interp, st, args, kwargs):
+    yield st, _bytes_term(st, EC_SIG(_flat(args[0]), _flat(args[1])), 64)
+
+
+def ecdsa_verifies(pubkey, signature, digest):
+    """SPEC: ECDSA verification over secp256k1 - natively the independent pure-Python verifier above"""
+    return py_ecdsa_verify(pubkey, signature, digest)
+
+
+@model_for(ecdsa_verifies)
+def _m_ecdsa_verifies(interp, st, args, kwargs):
+    yield st, mk_bool(EC_VER(_flat(args[0]), _flat(args[1]), _flat(args[2])))
+
+
+def signature_in_range(signature):
+    """SPEC: r and s of a 64-byte r||s are below the group order"""
+    return int.from_bytes(signature[:32], 'big') < N and int.from_bytes(signature[32:], 'big') < N
+
+
+@model_for(signature_in_range)
+def _m_signature_in_range(interp, st, args, kwargs):
+    yield st, mk_bool(EC_INRANGE(_flat(args[0])))
+
+
+def valid_pubkey(pub):
+    """SPEC: a compressed secp256k1 point"""
+    return ec_decompress(pub) is not None
+
+
+@model_for(valid_pubkey)
+def _m_valid_pubkey(interp, st, args, kwargs):
+    t = _flat(args[0])
+    c0 = z3.StrToCode(z3.SubString(t, 0, 1))
+    yield st, mk_bool(z3.And(z3.Length(t) == 33, z3.Or(c0 == 2, c0 == 3), EC_POINT_OK(t)))
+
+
+# ---- coincurve objects
+
+class _Ctx:
+    ctx = 'secp256k1 context'
+
+
 def _new_cpub(st, ser):
     # .public_key stands for the parsed C struct, .context.ctx for the library context
     return st.alloc(HObj(cPublicKey, dict(ser=ser, public_key=ser, context=st.alloc(HObj(_Ctx, {})))))
@@ -278,26 +429,27 @@ def _new_cpub(st, ser):
 
 @model_for(cPrivateKey)
 def _m_cpriv(interp, st, args, kwargs):
-    """coincurve.PrivateKey(secret): the harness only passes valid secrets (precondition valid_secret)"""
+    """coincurve.PrivateKey(secret): ValueError unless 0 < secret < n"""
     secret = args[0]
     if segs_of(secret) is None:
         raise Unsupported("coincurve.PrivateKey(secret): bytes expected")
     interp.builtins_used.add("coincurve.PrivateKey [uninterpreted ECDSA]")
-    ok = z3.And(z3.Length(_flat(secret)) == 32, EC_SECRET_OK(_flat(secret)))
-    if not _known_true(st, EC_SECRET_OK(_flat(secret))):
+    t = _flat(secret)
+    ok = z3.And(z3.Length(t) == 32, EC_SECRET_OK(t))
+    if not _known_true(st, EC_SECRET_OK(t)):
         bad = st.copy()
         if bad.assume(z3.Not(ok)) and interp.feasible(bad):
             yield bad, exc(ValueError, "Secret scalar must be greater than 0 and less than N.")
     if not st.assume(ok):
         return
-    _assume_point(st, EC_PUB(_flat(secret)))
-    pub = _new_cpub(st, _bytes_term(st, EC_PUB(_flat(secret)), 33))
+    _assume_point(st, EC_PUB(t))
+    pub = _new_cpub(st, _bytes_term(st, EC_PUB(t), 33))
     yield st, st.alloc(HObj(cPrivateKey, dict(secret=secret, public_key=pub, context=st.alloc(HObj(_Ctx, {})))))
 
 
 @model_for(cPrivateKey.sign)
 def _m_cpriv_sign(interp, st, args, kwargs):
-    """coincurve.PrivateKey.sign(message, hasher): DER(ECDSA(secret, hasher(message)))"""
+    """coincurve.PrivateKey.sign(message, hasher): DER(ECDSA(secret, hasher(message))), 8..72 bytes"""
     a = dict(zip(['self', 'message', 'hasher'], args))
     a.update(kwargs)
     if 'hasher' not in a or 'custom_nonce' in a:
@@ -318,14 +470,19 @@ def _m_cpriv_sign(interp, st, args, kwargs):
         yield s1, VBytes(t)
 
 
-def _known_len(st, v, n):
-    segs = segs_of(v)
-    if segs is None:
-        return False
-    ln = total_len(segs)
-    if isinstance(ln, int):
-        return ln == n
-    return st.entails(z3.simplify(ln) == n)
+@model_for(cPublicKey)
+def _m_cpub(interp, st, args, kwargs):
+    """coincurve.PublicKey(data): ValueError unless a valid point"""
+    data = args[0]
+    if not _known_len(st, data, 33):
+        raise Unsupported("coincurve.PublicKey(data): only 33-byte compressed keys are modelled")
+    t = _flat(data)
+    if not _known_true(st, EC_POINT_OK(t)):
+        bad = st.copy()
+        if bad.assume(z3.Not(EC_POINT_OK(t))) and interp.feasible(bad):
+            yield bad, exc(ValueError, "The public key could not be parsed or is invalid.")
+    if st.assume(EC_POINT_OK(t)):
+        yield st, _new_cpub(st, data)
 
 
 @model_for(cPublicKey.format)
@@ -336,200 +493,14 @@ def _m_cpub_format(interp, st, args, kwargs):
     yield st, st.heap[args[0].addr].fields['ser']
 
 
-# ================================================================================================
-# (b) Transaction.sign
-# ================================================================================================
-
-ADDRESS_PREFIX = b'\x55'
-
-
-class WalletLedger:
-    """duck-typed ledger + address table, as far as Transaction.sign touches them.  Addresses are the raw form
-    prefix || hash160 (injective like Base58Check, which is C06's business); the table maps the address of every wallet
-    key to the key, as the wallet database does (address = address of the derived public key)."""
-
-    def __init__(self, keys):
-        self.table = [(self.hash160_to_address(hash160(k.public_key.pubkey_bytes)), k) for k in keys]
-        self.asked = []
-
-    def hash160_to_address(self, h160):
-        return ADDRESS_PREFIX + h160
-
-    async def get_private_key_for_address(self, wallet, address):
-        self.asked.append(address)
-        for known, key in self.table:
-            if known == address:
-                return key
-        return None
-
-
-class WalletAccount:
-    def __init__(self, ledger, wallet):
-        self.ledger = ledger
-        self.wallet = wallet
-
-
-def p2pkh(pubkey_hash):
-    """SPEC: the standard pay-to-public-key-hash script"""
-    return b'\x76\xa9\x14' + pubkey_hash + b'\x88\xac'
-
-
-def push(data):
-    """SPEC: minimal script push of up to 75 bytes"""
-    return le(len(data), 1) + data
-
-
-def make_sign_proof(n_in, n_out):
-    types = dict(version=U32, locktime=U32, k0=TBytes(length=32), k1=TBytes(length=32))
-    for i in range(n_in):
-        types.update({f"h{i}": HASH, f"pos{i}": U32, f"ph{i}": TBytes(length=20), f"sig{i}": SIG, f"pk{i}": PUB, f"seq{i}": U32})
-    for j in range(n_out):
-        types.update({f"amt{j}": U64, f"os{j}": SMALL, f"late{j}": SMALL})
-
-    def requires(**kw):
-        ok = valid_secret(kw['k0']) and valid_secret(kw['k1'])
-        for i in range(n_in):
-            ok = ok and kw[f"h{i}"] != NULL_HASH32
-        return ok
-
-    async def run(**kw):
-        keys = [PrivateKey.from_bytes(None, kw['k0']), PrivateKey.from_bytes(None, kw['k1'])]
-        ledger = WalletLedger(keys)
-        account = WalletAccount(ledger, 'wallet')
-        tx = Transaction(version=kw['version'], locktime=kw['locktime'])
-        spent = [Output.pay_pubkey_hash(1000 + i, kw[f"ph{i}"]) for i in range(n_in)]
-        for i in range(n_in):
-            spent[i].tx_ref = TXRefImmutable.from_hash(kw[f"h{i}"], -1)
-            spent[i].position = kw[f"pos{i}"]
-        # history: the inputs carry scripts left over from an earlier signing, the serialisation caches are warm and
-        # an output script was regenerated afterwards (what Output.sign does to a claim output)
-        tx.add_inputs([Input(spent[i].ref, InputScript.redeem_pubkey_hash(kw[f"sig{i}"], kw[f"pk{i}"]), kw[f"seq{i}"])
-                       for i in range(n_in)])
-        tx.add_outputs([Output(kw[f"amt{j}"], OutputScript(kw[f"os{j}"])) for j in range(n_out)])
-        stale_raw, stale_id = tx.raw, tx.id
-        for j in range(n_out):
-            tx.outputs[j].script.source = kw[f"late{j}"]
-        await tx.sign([account])
-        scripts = [(txi.script.values['signature'], txi.script.values['pubkey'], txi.script.source) for txi in tx.inputs]
-        return scripts, tx.raw, tx.id, ledger.asked
-
-    def unpack(kw):
-        ins = [(kw[f"h{i}"], kw[f"pos{i}"], b'', kw[f"seq{i}"]) for i in range(n_in)]
-        outs = [(kw[f"amt{j}"], kw[f"late{j}"]) for j in range(n_out)]
-        return ins, outs
-
-    def ensures_signature_of_the_sighash_all_digest_by_the_key_of_the_spent_address(result, **kw):
-        ins, outs = unpack(kw)
-        ok = len(result[0]) == n_in
-        for i in range(n_in):
-            sig, pub, source = result[0][i]
-            digest = double_sha256(sighash_all_preimage(kw['version'], ins, outs, kw['locktime'], i, p2pkh(kw[f"ph{i}"])))
-            ok = ok and ((pub == pub_of(kw['k0']) and sig == der_sign(kw['k0'], digest) + b'\x01')
-                         or (pub == pub_of(kw['k1']) and sig == der_sign(kw['k1'], digest) + b'\x01'))
-        return ok
-
-    def ensures_public_key_hashes_to_what_the_spent_output_pays_to(result, **kw):
-        ok = True
-        for i in range(n_in):
-            ok = ok and hash160(result[0][i][1]) == kw[f"ph{i}"]
-        return ok
-
-    def ensures_script_is_sig_then_pubkey(result):
-        ok = True
-        for sig, pub, source in result[0]:
-            ok = ok and source == push(sig) + push(pub)
-        return ok
-
-    def ensures_serialisation_and_id_recomputed(result, **kw):
-        ins, outs = unpack(kw)
-        signed = [(ins[i][0], ins[i][1], result[0][i][2], ins[i][3]) for i in range(n_in)]
-        raw = enc_tx(kw['version'], signed, outs, kw['locktime'])
-        return result[1] == raw and result[2] == hexlify(sha256(sha256(raw))[::-1]).decode()
-
-    def unknown_address(**kw):
-        known = [hash160(pub_of(kw['k0'])), hash160(pub_of(kw['k1']))]
-        bad = False
-        for i in range(n_in):
-            bad = bad or kw[f"ph{i}"] not in known
-        return bad
-
-    import inspect
-    params = [inspect.Parameter(n, inspect.Parameter.POSITIONAL_OR_KEYWORD) for n in types]
-    sig_all = inspect.Signature(params)
-    sig_res = inspect.Signature([inspect.Parameter('result', inspect.Parameter.POSITIONAL_OR_KEYWORD)] + params)
-    run.__signature__ = sig_all
-    requires.__signature__ = sig_all
-    unknown_address.__signature__ = sig_all
-    clauses = dict(
-        ensures_signature_of_the_sighash_all_digest_by_the_key_of_the_spent_address=ensures_signature_of_the_sighash_all_digest_by_the_key_of_the_spent_address,
-        ensures_public_key_hashes_to_what_the_spent_output_pays_to=ensures_public_key_hashes_to_what_the_spent_output_pays_to,
-        ensures_serialisation_and_id_recomputed=ensures_serialisation_and_id_recomputed)
-    for f in clauses.values():
-        f.__signature__ = sig_res
-    clauses['ensures_script_is_sig_then_pubkey'] = ensures_script_is_sig_then_pubkey
-
-    def samples():
-        import itertools
-        secrets = [bytes([7]) * 32, (N - 1).to_bytes(32, 'big')]
-        hashes = [hash160(pub_of(k)) for k in secrets]
-        for combo in itertools.product((0, 1), repeat=n_in):
-            for variant in range(3):
-                d = dict(version=1 + variant, locktime=variant * 500000, k0=secrets[0], k1=secrets[1])
-                for i in range(n_in):
-                    d.update({f"h{i}": bytes([i + 1 + variant]) * 32, f"pos{i}": i + variant, f"ph{i}": hashes[combo[i]],
-                              f"sig{i}": bytes([0x30 + i]) * (72 - variant), f"pk{i}": bytes([2 + i]) * 33, f"seq{i}": 0xFFFFFFFF - i})
-                for j in range(n_out):
-                    d.update({f"amt{j}": 1000 + j, f"os{j}": bytes((k * 7 + 2) % 256 for k in range(25 + j)),
-                              f"late{j}": bytes((k * 11 + 3) % 256 for k in range(40 * variant + j))})
-                yield d
-        d = dict(d)
-        d['ph0'] = b'\x00' * 20         # not a wallet address
-        yield d
-
-    body = dict(inputs=types, requires=staticmethod(requires), run=staticmethod(run), samples=staticmethod(samples),
-                raises={AssertionError: unknown_address},
-                note="every assignment of 2 wallet keys to the inputs x 3 field variants, plus an address the wallet has no key for",
-                __doc__=f"Transaction.sign, {n_in} input(s) x {n_out} output(s)")
-    body.update({k: staticmethod(v) for k, v in clauses.items()})
-    proof("C04", f"sign[{n_in}x{n_out}]")(type('SignProof', (), body))
-
-
-for _ni, _no in ((1, 1), (2, 1)):
-    make_sign_proof(_ni, _no)
-
-
-
-# ================================================================================================
-# (c) channel signatures
-# ================================================================================================
-
-from coincurve.utils import lib as _lib, ffi as _ffi          # noqa: E402
-from lbry.schema.claim import Claim                            # noqa: E402
-from lbry.schema.support import Support                        # noqa: E402
-from lbry.schema.base import Signable                          # noqa: E402
-from pyvc import builtins_model2 as _bm2                       # noqa: E402
-
-
-def _assume_point(st, t):
-    st.assume(z3.Length(t) == 33)
-    c0 = z3.StrToCode(z3.SubString(t, 0, 1))
-    st.assume(z3.Or(c0 == 2, c0 == 3))
-    st.assume(EC_POINT_OK(t))
-
-
-EC_POINT_OK = z3.Function('secp256k1_valid_compressed', _S, _B)
-
+# ---- libsecp256k1 through cffi (what PrivateKey.sign_compact and PublicKey.verify call)
 
 class _CBuf:
-    """a C object allocated by ffi.new (opaque signature struct / output buffer)"""
+    """a C object allocated by ffi.new (opaque signature struct / output buffer); `data` is what the library wrote"""
 
     def __init__(self, ctype):
         self.ctype = ctype
         self.data = None
-
-
-class _Ctx:
-    ctx = 'secp256k1 context'
 
 
 @model_for(_ffi.new)
@@ -553,7 +524,7 @@ def _m_secp_sign(interp, st, args, kwargs):
     interp.builtins_used.add("libsecp256k1.secp256k1_ecdsa_sign [uninterpreted ECDSA]")
     k, d = _flat(secret), _flat(digest)
     sig = EC_SIG(k, d)
-    # trusted facts about ECDSA (ground instances): a signature is 64 bytes r||s in range and verifies under the signer's key
+    # ground instances of the trusted ECDSA facts: the signature is r||s in range and verifies under the signer's key
     st.assume(EC_INRANGE(sig))
     st.assume(EC_VER(EC_PUB(k), sig, d))
     st.heap[out.addr].fields['data'] = _bytes_term(st, sig, 64)
@@ -585,8 +556,8 @@ def _m_secp_parse(interp, st, args, kwargs):
 
 @model_for(_lib.secp256k1_ecdsa_signature_normalize)
 def _m_secp_normalize(interp, st, args, kwargs):
-    # (r, s) -> (r, min(s, n - s)); EC_VER is ECDSA verification of r||s as the mathematics defines it, for which both
-    # forms are equivalent, so the struct keeps naming the parsed r||s
+    # (r, s) -> (r, min(s, n - s)).  EC_VER is ECDSA verification as the mathematics defines it, which accepts both forms,
+    # so the normalised struct keeps naming the parsed r||s (TRUSTED: verify(normalize(x)) == ECDSA-verify(x)).
     ctx, out, sig = args
     st.heap[out.addr].fields['data'] = st.heap[sig.addr].fields['data']
     yield st, VInt(0)
@@ -602,68 +573,23 @@ def _m_secp_verify(interp, st, args, kwargs):
     yield st, VInt(z3.If(ok, 1, 0))
 
 
-def ecdsa_verifies(pubkey, signature, digest):
-    """SPEC: ECDSA over secp256k1 - the independent pure-python verifier below (natively); uninterpreted symbolically"""
-    return py_ecdsa_verify(pubkey, signature, digest)
+# ---- Base58 numeral (property C06): decode(encode(b)) == b
+
+@model_for(Base58.__dict__['encode'].__func__)
+def _m_b58_encode(interp, st, args, kwargs):
+    interp.builtins_used.add("Base58 numeral [contract: decode(encode(b)) == b, property C06]")
+    yield st, VStr(B58E(_flat(args[1])))
 
 
-@model_for(ecdsa_verifies)
-def _m_ecdsa_verifies(interp, st, args, kwargs):
-    yield st, mk_bool(EC_VER(_flat(args[0]), _flat(args[1]), _flat(args[2])))
+@model_for(Base58.__dict__['decode'].__func__)
+def _m_b58_decode(interp, st, args, kwargs):
+    t = args[1].term()
+    if not (z3.is_app(t) and t.decl().eq(B58E)):
+        raise Unsupported("Base58.decode of a string that is not syntactically an encoding")
+    yield st, VBytes(t.arg(0))
 
 
-def compact_sign(secret, digest):
-    """SPEC: the deterministic (RFC 6979) ECDSA signature of a 32-byte digest as r||s"""
-    r, s = der_decode(der_sign(secret, digest))
-    return r.to_bytes(32, 'big') + s.to_bytes(32, 'big')
-
-
-@model_for(compact_sign)
-def _m_compact_sign(interp, st, args, kwargs):
-    yield st, _bytes_term(st, EC_SIG(_flat(args[0]), _flat(args[1])), 64)
-
-
-def signature_in_range(signature):
-    """SPEC: r and s of a 64-byte r||s are below the group order"""
-    return int.from_bytes(signature[:32], 'big') < N and int.from_bytes(signature[32:], 'big') < N
-
-
-@model_for(signature_in_range)
-def _m_signature_in_range(interp, st, args, kwargs):
-    yield st, mk_bool(EC_INRANGE(_flat(args[0])))
-
-
-def valid_pubkey(pub):
-    """SPEC: a compressed secp256k1 point"""
-    try:
-        cPublicKey(pub)
-    except ValueError:
-        return False
-    return len(pub) == 33 and pub[0] in (2, 3)
-
-
-@model_for(valid_pubkey)
-def _m_valid_pubkey(interp, st, args, kwargs):
-    t = _flat(args[0])
-    c0 = z3.StrToCode(z3.SubString(t, 0, 1))
-    yield st, mk_bool(z3.And(z3.Length(t) == 33, z3.Or(c0 == 2, c0 == 3), EC_POINT_OK(t)))
-
-
-@model_for(cPublicKey)
-def _m_cpub(interp, st, args, kwargs):
-    data = args[0]
-    if not _known_len(st, data, 33):
-        raise Unsupported("coincurve.PublicKey(data): only 33-byte compressed keys are modelled")
-    t = _flat(data)
-    if not _known_true(st, EC_POINT_OK(t)):
-        bad = st.copy()
-        if bad.assume(z3.Not(EC_POINT_OK(t))) and interp.feasible(bad):
-            yield bad, exc(ValueError, "The public key could not be parsed or is invalid.")
-    if st.assume(EC_POINT_OK(t)):
-        yield st, _new_cpub(st, data)
-
-
-# ---- bytearray as far as Signable.to_bytes uses it (engine gap /tmp/engine_gaps/C04_1.py: bytearray mutation)
+# ---- bytearray as far as Signable.to_bytes uses it (engine gap: /tmp/engine_gaps/C04_1.py "bytearray mutation")
 
 class _ByteArray:
     def __init__(self):
@@ -698,6 +624,254 @@ def _m_bytes(interp, st, args, kwargs):
     yield from _bm2.t_bytes(interp, st, args, kwargs)
 
 
+def _with_signature(fn, names, result=False):
+    import inspect
+    params = [inspect.Parameter(n, inspect.Parameter.POSITIONAL_OR_KEYWORD) for n in names]
+    if result:
+        params = [inspect.Parameter('result', inspect.Parameter.POSITIONAL_OR_KEYWORD)] + params
+    fn.__signature__ = inspect.Signature(params)
+    return fn
+
+
+# ====================================================================================================================
+# (a) the signing pre-image
+# ====================================================================================================================
+
+SHAPES = ((1, 1), (2, 1), (1, 2), (2, 2))
+LEFTOVER_SIG = TBytes(maxlen=75)
+LEFTOVER_PUB = TBytes(length=33)
+
+
+def spent_output(h, pos, amount, script):
+    return Output(amount, OutputScript(script), tx_ref=TXRefImmutable.from_hash(h, -1), position=pos)
+
+
+def _preimage_types():
+    types = dict(shape=TOneOf(*[TConst(s) for s in SHAPES]), version=U32, locktime=U32)
+    for i in range(2):
+        types.update({f"h{i}": HASH, f"pos{i}": U32, f"spent{i}": SCRIPT, f"sig{i}": LEFTOVER_SIG, f"pk{i}": LEFTOVER_PUB,
+                      f"seq{i}": U32})
+    for j in range(2):
+        types.update({f"amt{j}": U64, f"os{j}": SCRIPT})
+    return types
+
+
+def _preimage_proof():
+    types = _preimage_types()
+
+    def requires(**kw):
+        # a wallet transaction does not spend the null outpoint (that is a coinbase); in the 2x2 shape the output scripts are
+        # kept below 253 bytes (their other size ranges are covered by the 1x2 and 2x1 shapes)
+        ok = kw['h0'] != NULL_HASH32 and kw['h1'] != NULL_HASH32
+        if kw['shape'] == (2, 2):
+            ok = ok and len(kw['os0']) <= 252 and len(kw['os1']) <= 252
+        return ok
+
+    def run(**kw):
+        n_in, n_out = kw['shape']
+        tx = Transaction(version=kw['version'], locktime=kw['locktime'])
+        tx.add_inputs([Input(TXORefResolvable(spent_output(kw[f"h{i}"], kw[f"pos{i}"], 1000 + i, kw[f"spent{i}"])),
+                             InputScript.redeem_pubkey_hash(kw[f"sig{i}"], kw[f"pk{i}"]), kw[f"seq{i}"]) for i in range(n_in)])
+        tx.add_outputs([Output(kw[f"amt{j}"], OutputScript(kw[f"os{j}"])) for j in range(n_out)])
+        before = tx.raw                                 # history: the serialisation caches are warm
+        pre = [tx._serialize_for_signature(i) for i in range(n_in)]
+        return pre, before, tx.raw
+
+    def ensures_is_the_sighash_all_preimage(result, **kw):
+        n_in, n_out = kw['shape']
+        ins = [(kw[f"h{i}"], kw[f"pos{i}"], b'', kw[f"seq{i}"]) for i in range(n_in)]
+        outs = [(kw[f"amt{j}"], kw[f"os{j}"]) for j in range(n_out)]
+        ok = len(result[0]) == n_in
+        for i in range(n_in):
+            ok = ok and result[0][i] == sighash_all_preimage(kw['version'], ins, outs, kw['locktime'], i, kw[f"spent{i}"])
+        return ok
+
+    def ensures_transaction_untouched(result):
+        return result[1] == result[2]
+
+    def samples():
+        import itertools
+        for shape in SHAPES:
+            for combo in itertools.product([0, 25, 252, 253, 65536], repeat=2):
+                for big in (0, 1):
+                    d = dict(shape=shape, version=1 if not big else 2 ** 32 - 1, locktime=0 if not big else 2 ** 32 - 1)
+                    for i in range(2):
+                        d.update({f"h{i}": bytes([i + 1]) * 32, f"pos{i}": i if not big else 2 ** 32 - 1 - i,
+                                  f"spent{i}": bytes((k * 5 + 1 + i) % 256 for k in range(combo[i])), f"sig{i}": bytes([0x30 + i]) * (72 + i),
+                                  f"pk{i}": bytes([2 + i]) * 33, f"seq{i}": 0xFFFFFFFF - i})
+                    for j in range(2):
+                        d.update({f"amt{j}": 1000 + j if not big else 2 ** 64 - 1 - j,
+                                  f"os{j}": bytes((k * 7 + 2) % 256 for k in range(25 + j if shape == (2, 2) else combo[1 - j]))})
+                    yield d
+
+    names = list(types)
+    body = dict(inputs=types, timeout=6,
+                requires=staticmethod(_with_signature(requires, names)), run=staticmethod(_with_signature(run, names)),
+                ensures_is_the_sighash_all_preimage=staticmethod(_with_signature(ensures_is_the_sighash_all_preimage, names, True)),
+                ensures_transaction_untouched=staticmethod(ensures_transaction_untouched), samples=staticmethod(samples),
+                note="4 shapes x spent-script / output-script lengths 0/25/252/253/65536 x ordinary and extreme field values",
+                __doc__="Transaction._serialize_for_signature(i), 1..2 inputs x 1..2 outputs: the bytes handed to the signer for "
+                        "input i are the SIGHASH_ALL pre-image (spent script in input i, empty scripts elsewhere, hash type 1), "
+                        "whatever scripts the inputs currently carry, and the transaction is left unchanged")
+    proof("C04", "preimage")(type('Preimage', (), body))
+
+
+_preimage_proof()
+
+
+# ====================================================================================================================
+# (b) Transaction.sign
+# ====================================================================================================================
+
+ADDRESS_PREFIX = b'\x55'
+
+
+class WalletLedger:
+    """duck-typed ledger + address table, as far as Transaction.sign touches them.  Addresses are the raw form
+    prefix || hash160 (injective like Base58Check, which is C06's business); the table maps the address of every wallet
+    key to the key, as the wallet database does (an address row is the address of the derived public key)."""
+
+    def __init__(self, keys):
+        self.table = [(self.hash160_to_address(hash160(k.public_key.pubkey_bytes)), k) for k in keys]
+        self.asked = []
+        self.watched = None     # interleaving: while Transaction.sign awaits the key lookup, somebody else (a log line, a
+        self.seen = []          # concurrent task) reads id and serialisation of the transaction being signed
+
+    def hash160_to_address(self, h160):
+        return ADDRESS_PREFIX + h160
+
+    async def get_private_key_for_address(self, wallet, address):
+        self.asked.append(address)
+        if self.watched is not None:
+            self.seen.append((self.watched.id, self.watched.raw))
+        for known, key in self.table:
+            if known == address:
+                return key
+        return None
+
+
+class WalletAccount:
+    def __init__(self, ledger, wallet):
+        self.ledger = ledger
+        self.wallet = wallet
+
+
+def _sign_proof():
+    types = dict(n_in=TOneOf(TConst(1), TConst(2)), version=U32, locktime=U32, k0=TBytes(length=32), k1=TBytes(length=32))
+    for i in range(2):
+        types.update({f"h{i}": HASH, f"pos{i}": U32, f"ph{i}": H160, f"sig{i}": LEFTOVER_SIG, f"pk{i}": LEFTOVER_PUB, f"seq{i}": U32})
+    types.update(amt0=U64, os0=SMALL, late0=SMALL)
+
+    def requires(**kw):
+        return valid_secret(kw['k0']) and valid_secret(kw['k1']) and kw['h0'] != NULL_HASH32 and kw['h1'] != NULL_HASH32
+
+    async def run(**kw):
+        n_in = kw['n_in']
+        keys = [PrivateKey.from_bytes(None, kw['k0']), PrivateKey.from_bytes(None, kw['k1'])]
+        ledger = WalletLedger(keys)
+        account = WalletAccount(ledger, 'wallet')
+        tx = Transaction(version=kw['version'], locktime=kw['locktime'])
+        spent = [Output.pay_pubkey_hash(1000 + i, kw[f"ph{i}"]) for i in range(n_in)]
+        for i in range(n_in):
+            spent[i].tx_ref = TXRefImmutable.from_hash(kw[f"h{i}"], -1)
+            spent[i].position = kw[f"pos{i}"]
+        # history: the inputs carry scripts left over from an earlier signing, the serialisation caches are warm and
+        # an output script was regenerated afterwards (what Output.sign does to a claim output)
+        tx.add_inputs([Input(spent[i].ref, InputScript.redeem_pubkey_hash(kw[f"sig{i}"], kw[f"pk{i}"]), kw[f"seq{i}"])
+                       for i in range(n_in)])
+        tx.add_outputs([Output(kw['amt0'], OutputScript(kw['os0']))])
+        stale = (tx.raw, tx.id)
+        tx.outputs[0].script.source = kw['late0']
+        ledger.watched = tx
+        await tx.sign([account])
+        ledger.watched = None
+        scripts = [(txi.script.values['signature'], txi.script.values['pubkey'], txi.script.source) for txi in tx.inputs]
+        return scripts, tx.raw, tx.id, ledger.asked
+
+    def unpack(kw):
+        ins = [(kw[f"h{i}"], kw[f"pos{i}"], b'', kw[f"seq{i}"]) for i in range(kw['n_in'])]
+        return ins, [(kw['amt0'], kw['late0'])]
+
+    def ensures_signature_of_the_sighash_all_digest_by_a_wallet_key_whose_public_key_is_given(result, **kw):
+        ins, outs = unpack(kw)
+        ok = len(result[0]) == kw['n_in']
+        for i in range(kw['n_in']):
+            sig, pub, source = result[0][i]
+            digest = double_sha256(sighash_all_preimage(kw['version'], ins, outs, kw['locktime'], i, p2pkh(kw[f"ph{i}"])))
+            ok = ok and ((pub == pub_of(kw['k0']) and sig == der_sign(kw['k0'], digest) + b'\x01')
+                         or (pub == pub_of(kw['k1']) and sig == der_sign(kw['k1'], digest) + b'\x01'))
+        return ok
+
+    def ensures_public_key_hashes_to_what_the_spent_output_pays_to(result, **kw):
+        ok = True
+        for i in range(kw['n_in']):
+            ok = ok and hash160(result[0][i][1]) == kw[f"ph{i}"]
+        return ok
+
+    def ensures_script_is_signature_then_public_key(result):
+        ok = True
+        for sig, pub, source in result[0]:
+            ok = ok and source == push(sig) + push(pub)
+        return ok
+
+    def ensures_serialisation_and_id_are_those_of_the_signed_transaction(result, **kw):
+        ins, outs = unpack(kw)
+        signed = [(ins[i][0], ins[i][1], result[0][i][2], ins[i][3]) for i in range(kw['n_in'])]
+        raw = enc_tx(kw['version'], signed, outs, kw['locktime'])
+        return result[1] == raw and result[2] == hexlify(sha256(sha256(raw))[::-1]).decode()
+
+    def unknown_address(**kw):
+        known = [hash160(pub_of(kw['k0'])), hash160(pub_of(kw['k1']))]
+        bad = False
+        for i in range(kw['n_in']):
+            bad = bad or kw[f"ph{i}"] not in known
+        return bad
+
+    def samples():
+        import itertools
+        secrets = [bytes([7]) * 32, (N - 1).to_bytes(32, 'big')]
+        hashes = [hash160(pub_of(k)) for k in secrets]
+        for n_in in (1, 2):
+            for combo in itertools.product((0, 1), repeat=2):
+                for variant in range(3):
+                    d = dict(n_in=n_in, version=1 + variant, locktime=variant * 500000, k0=secrets[0], k1=secrets[1],
+                             amt0=1000, os0=bytes((k * 7 + 2) % 256 for k in range(25)),
+                             late0=bytes((k * 11 + 3) % 256 for k in range(100 * variant)))
+                    for i in range(2):
+                        d.update({f"h{i}": bytes([i + 1 + variant]) * 32, f"pos{i}": i + variant, f"ph{i}": hashes[combo[i]],
+                                  f"sig{i}": bytes([0x30 + i]) * (72 - variant), f"pk{i}": bytes([2 + i]) * 33, f"seq{i}": 0xFFFFFFFF - i})
+                    yield d
+            d = dict(d)
+            d['ph0'] = b'\x00' * 20         # not a wallet address
+            yield d
+
+    names = list(types)
+    clauses = dict(
+        ensures_signature_of_the_sighash_all_digest_by_a_wallet_key_whose_public_key_is_given=_with_signature(
+            ensures_signature_of_the_sighash_all_digest_by_a_wallet_key_whose_public_key_is_given, names, True),
+        ensures_public_key_hashes_to_what_the_spent_output_pays_to=_with_signature(
+            ensures_public_key_hashes_to_what_the_spent_output_pays_to, names, True),
+        ensures_serialisation_and_id_are_those_of_the_signed_transaction=_with_signature(
+            ensures_serialisation_and_id_are_those_of_the_signed_transaction, names, True),
+        ensures_script_is_signature_then_public_key=ensures_script_is_signature_then_public_key)
+    body = dict(inputs=types, timeout=6, requires=staticmethod(_with_signature(requires, names)),
+                run=staticmethod(_with_signature(run, names)), samples=staticmethod(samples),
+                raises={AssertionError: _with_signature(unknown_address, names)},
+                note="1..2 inputs x every assignment of 2 wallet keys to the inputs x 3 field variants, plus an address the wallet has no "
+                     "key for",
+                __doc__="Transaction.sign, 1..2 P2PKH inputs: <sig||01> <pubkey> per input, sig = ECDSA by the wallet key of the spent "
+                        "address over double-SHA256 of the SIGHASH_ALL pre-image (other inputs empty, current outputs); raw/id recomputed")
+    body.update({k: staticmethod(v) for k, v in clauses.items()})
+    proof("C04", "sign")(type('Sign', (), body))
+
+
+_sign_proof()
+
+
+# ====================================================================================================================
+# (c) channel signatures
+# ====================================================================================================================
+
 # ---- protobuf stand-ins: what Signable / Claim / Channel touch of the generated message classes
 
 class ChannelMsg:
@@ -725,37 +899,13 @@ class ClaimMsg:
         self.payload = data
 
 
-def be32(n):
-    return n.to_bytes(4, 'big')
-
-
-def push_data_spec(data):
-    """SPEC: Bitcoin script push of arbitrary data with the minimal push opcode"""
-    n = len(data)
-    if n < 76:
-        return le(n, 1) + data
-    if n <= 0xFF:
-        return b'\x4c' + le(n, 1) + data
-    if n <= 0xFFFF:
-        return b'\x4d' + le(n, 2) + data
-    return b'\x4e' + le(n, 4) + data
-
-
-def new_digest_spec(first_hash, first_pos, channel_hash, message):
-    """SPEC (statement + protocol): SHA-256 over first input outpoint (tx hash || LE32 index), channel claim hash, message"""
-    return sha256(first_hash + le(first_pos, 4) + channel_hash + message)
-
-
-def envelope_spec(channel_hash, signature, message):
-    """SPEC: the signed claim envelope: version byte 1, channel hash (20), signature (64), message"""
-    return b'\x01' + channel_hash + signature + message
-
-
 OWNER = b'\x11' * 20
 HOLDER = b'\x22' * 20
+KINDS = (('claim', 'name'), ('update', 'update'), ('support', 'name'))
 
 
 def make_channel(kind, secret, h, pos, claim_id):
+    """a channel output (a new claim, or an update of claim_id) in transaction h at index pos, with its private key"""
     claim = Claim(ClaimMsg('channel', b'channel-content', ChannelMsg(b'')))
     if kind == 'name':
         txo = Output.pay_claim_name_pubkey_hash(1000, '@chan', claim, OWNER)
@@ -767,15 +917,23 @@ def make_channel(kind, secret, h, pos, claim_id):
     return txo
 
 
-def make_signable_output(kind, payload, target_id):
+def channel_publishing(pub):
+    txo = Output.pay_claim_name_pubkey_hash(1000, '@chan', Claim(ClaimMsg('channel', b'channel-content', ChannelMsg(pub))), OWNER)
+    Transaction().add_outputs([txo])
+    return txo
+
+
+def make_signable_output(kind, payload, target_id, holder=HOLDER):
     if kind == 'claim':
-        return Output.pay_claim_name_pubkey_hash(1000, 'stream', Claim(ClaimMsg('stream', payload)), HOLDER)
+        return Output.pay_claim_name_pubkey_hash(1000, 'stream', Claim(ClaimMsg('stream', payload)), holder)
     if kind == 'update':
-        return Output(1000, OutputScript.pay_update_claim_pubkey_hash(b'stream', target_id, Claim(ClaimMsg('stream', payload)), HOLDER))
-    return Output(1000, OutputScript.pay_support_data_pubkey_hash(b'stream', target_id, Support(ClaimMsg(None, payload)), HOLDER))
+        return Output(1000, OutputScript.pay_update_claim_pubkey_hash(b'stream', target_id, Claim(ClaimMsg('stream', payload)), holder))
+    return Output(1000, OutputScript.pay_support_data_pubkey_hash(b'stream', target_id, Support(ClaimMsg(None, payload)), holder))
 
 
 def signed_script_spec(kind, target_id, envelope):
+    """OP_CLAIM_NAME <name> <claim> OP_2DROP OP_DROP | OP_UPDATE_CLAIM / OP_SUPPORT_CLAIM <name> <claim id> <claim> OP_2DROP OP_2DROP,
+    followed by the pay-to-pubkey-hash script"""
     tail = p2pkh(HOLDER)
     if kind == 'claim':
         return b'\xb5' + push_data_spec(b'stream') + push_data_spec(envelope) + b'\x6d\x75' + tail
@@ -791,54 +949,859 @@ def tx_with(first, second, txo):
     return tx
 
 
-def make_sign_validate_proof(kind, channel_kind):
-    @proof("C04", f"channel.sign-then-validate[{kind},{channel_kind}]")
-    class SignThenValidate:
-        """Output.sign(channel) then is_signed_by(channel)"""
-        inputs = dict(secret=TBytes(length=32), payload=TBytes(maxlen=60000), ch=HASH, cpos=U32, cid=TBytes(length=20),
-                      target=TBytes(length=20), h0=HASH, pos0=U32, h1=HASH, pos1=U32)
-        note = "payload lengths 0, 1, 100, 170, 171, 1000; two secrets"
+@proof("C04", "channel.sign-then-validate")
+class SignThenValidate:
+    """Output.sign(channel) on a claim / claim update / support with arbitrary message bytes in a two-input transaction, then
+    is_signed_by: signature = ECDSA by the channel key over the specification digest, the channel's claim hash is stored, the
+    script carries the envelope, the object validates against its channel, and validation against ANOTHER channel output is
+    verification under that channel's key"""
+    timeout = 6
+    inputs = dict(kinds=TOneOf(*[TConst(k) for k in KINDS]), secret=TBytes(length=32), other=TBytes(length=32), payload=MESSAGE,
+                  ch=HASH, cpos=U32, cid=H160, target=H160, h0=HASH, pos0=U32, h1=HASH, pos1=U32)
+    note = "3 kinds x message lengths 0, 1, 100, 170, 171, 1000 x two channel keys"
 
-        def requires(secret, h0, h1):
-            return valid_secret(secret) and h0 != NULL_HASH32 and h1 != NULL_HASH32
+    def requires(secret, other, h0, h1):
+        return valid_secret(secret) and valid_secret(other) and h0 != NULL_HASH32 and h1 != NULL_HASH32
 
-        def run(secret, payload, ch, cpos, cid, target, h0, pos0, h1, pos1):
-            channel = make_channel(channel_kind, secret, ch, cpos, cid)
-            txo = make_signable_output(kind, payload, target)
-            tx_with((h0, pos0), (h1, pos1), txo)
-            txo.sign(channel)
-            s = txo.signable
-            return (s.signature, s.signing_channel_hash, txo.is_signed_by(channel), txo.script.source, bytes(s),
-                    channel.claim.channel.public_key_bytes, s.is_signed, txo.channel is channel)
+    def run(kinds, secret, other, payload, ch, cpos, cid, target, h0, pos0, h1, pos1):
+        kind, channel_kind = kinds
+        channel = make_channel(channel_kind, secret, ch, cpos, cid)
+        stranger = make_channel(channel_kind, other, ch, cpos, cid)
+        txo = make_signable_output(kind, payload, target)
+        tx_with((h0, pos0), (h1, pos1), txo)
+        txo.sign(channel)
+        s = txo.signable
+        return (s.signature, s.signing_channel_hash, txo.is_signed_by(channel), txo.script.source, bytes(s),
+                channel.claim.channel.public_key_bytes, s.is_signed, txo.channel is channel, txo.is_signed_by(stranger))
 
-        def ensures_names_the_channel(ch, cpos, cid, result):
-            expected = hash160(ch + be32(cpos)) if channel_kind == 'name' else cid
-            return result[1] == expected and result[7]
+    def ensures_names_the_channel(kinds, ch, cpos, cid, result):
+        expected = hash160(ch + be32(cpos)) if kinds[1] == 'name' else cid
+        return result[1] == expected and result[7]
 
-        def ensures_signature_is_over_the_spec_digest_by_the_channel_key(secret, payload, h0, pos0, result):
-            return result[0] == compact_sign(secret, new_digest_spec(h0, pos0, result[1], payload))
+    def ensures_signature_is_over_the_spec_digest_by_the_channel_key(secret, payload, h0, pos0, result):
+        return result[0] == compact_sign(secret, new_digest_spec(h0, pos0, result[1], payload))
 
-        def ensures_validates_against_the_channel(result):
-            return result[2] == True and result[6]
+    def ensures_validates_against_the_channel(result):
+        return result[2] == True and result[6]        # noqa: E712
 
-        def ensures_channel_publishes_the_signing_public_key(secret, result):
-            return result[5] == pub_of(secret)
+    def ensures_another_channel_is_judged_by_its_own_key(other, payload, h0, pos0, result):
+        return result[8] == ecdsa_verifies(pub_of(other), result[0], new_digest_spec(h0, pos0, result[1], payload))
 
-        def ensures_envelope_in_script(payload, target, result):
-            env = envelope_spec(result[1], result[0], payload)
-            return result[4] == env and result[3] == signed_script_spec(kind, target, env)
+    def ensures_channel_publishes_the_signing_public_key(secret, result):
+        return result[5] == pub_of(secret)
 
-        def samples():
+    def ensures_envelope_in_script(kinds, payload, target, result):
+        env = envelope_spec(result[1], result[0], payload)
+        return result[4] == env and result[3] == signed_script_spec(kinds[0], target, env)
+
+    def samples():
+        for kinds in KINDS:
             for n in (0, 1, 100, 170, 171, 1000):
-                for secret in (bytes([9]) * 32, (N - 2).to_bytes(32, 'big')):
-                    yield dict(secret=secret, payload=bytes((i * 3 + n) % 256 for i in range(n)), ch=b'\x05' * 32, cpos=n % 3,
-                               cid=bytes(range(20)), target=bytes(range(20, 40)), h0=b'\x01' * 32, pos0=1, h1=b'\x02' * 32, pos1=0)
+                for secret, other in ((bytes([9]) * 32, bytes([10]) * 32), ((N - 2).to_bytes(32, 'big'), bytes([9]) * 32)):
+                    yield dict(kinds=kinds, secret=secret, other=other, payload=bytes((i * 3 + n) % 256 for i in range(n)),
+                               ch=b'\x05' * 32, cpos=n % 3, cid=bytes(range(20)), target=bytes(range(20, 40)), h0=b'\x01' * 32, pos0=1,
+                               h1=b'\x02' * 32, pos1=0)
 
 
-for _k, _c in (('claim', 'name'), ('update', 'update'), ('support', 'name')):
-    make_sign_validate_proof(_k, _c)
+VALIDATE_KINDS = (('claim', False), ('update', False), ('support', False), ('claim', True))
 
 
-TRUSTED = []
-NOT_DECIDED = []
-ASSUMPTIONS = []
+@proof("C04", "channel.validate")
+class Validate:
+    """is_signed_by on an arbitrary signed object (every field of the claim, the transaction and the channel is free): the
+    result is ECDSA verification under the key published by the channel ARGUMENT of exactly the specification digest (new
+    format, or the legacy format when the claim carries a pre-2019 payload)"""
+    timeout = 6
+    inputs = dict(kinds=TOneOf(*[TConst(k) for k in VALIDATE_KINDS]), pub=TBytes(length=33), signature=TBytes(length=64), chash=H160,
+                  payload=MESSAGE, holder=H160, h0=HASH, pos0=U32, h1=HASH, pos1=U32)
+    note = "genuine signatures in both formats, their high-S twins, and single-bit / single-field mutations of every field"
+    raises = {ValueError: lambda pub: not valid_pubkey(pub), AssertionError: lambda signature: not signature_in_range(signature)}
+
+    def requires(kinds, payload, h0, h1):
+        return h0 != NULL_HASH32 and h1 != NULL_HASH32 and (len(payload) > 0 or not kinds[1])
+
+    def run(kinds, pub, signature, chash, payload, holder, h0, pos0, h1, pos1):
+        kind, legacy = kinds
+        channel = channel_publishing(pub)
+        txo = make_signable_output(kind, b'current-message' if legacy else payload, b'\x33' * 20, holder)
+        s = txo.signable
+        s.signature = signature
+        s.signing_channel_hash = chash
+        s.unsigned_payload = payload if legacy else None
+        tx_with((h0, pos0), (h1, pos1), txo)
+        return txo.is_signed_by(channel, Ledger)
+
+    def ensures_is_ecdsa_verification_of_the_spec_digest_under_the_channel_key(kinds, pub, signature, chash, payload, holder, h0, pos0,
+                                                                                result):
+        digest = legacy_digest_spec(holder, payload, chash) if kinds[1] else new_digest_spec(h0, pos0, chash, payload)
+        return result == ecdsa_verifies(pub, signature, digest)
+
+    def samples():
+        def flip(b, bit):
+            return bytes(x ^ (1 << (bit % 8)) if i == (bit // 8) % len(b) else x for i, x in enumerate(b))
+        secret, other = bytes([9]) * 32, bytes([10]) * 32
+        for kinds in VALIDATE_KINDS:
+            for n in (1, 90, 300):
+                base = dict(kinds=kinds, pub=pub_of(secret), chash=bytes(range(20)), payload=bytes((i * 3 + n) % 256 for i in range(n)),
+                            holder=bytes(range(40, 60)), h0=b'\x01' * 32, pos0=1, h1=b'\x02' * 32, pos1=0)
+                digest = legacy_digest_spec(base['holder'], base['payload'], base['chash']) if kinds[1] else \
+                    new_digest_spec(base['h0'], base['pos0'], base['chash'], base['payload'])
+                base['signature'] = compact_sign(secret, digest)
+                yield dict(base)
+                r, s = int.from_bytes(base['signature'][:32], 'big'), int.from_bytes(base['signature'][32:], 'big')
+                yield dict(base, signature=r.to_bytes(32, 'big') + (N - s).to_bytes(32, 'big'))      # the high-S twin
+                for field in ('payload', 'chash', 'signature', 'h0', 'holder', 'pub'):
+                    for bit in (0, 77, 8 * len(base[field]) - 1):
+                        yield dict(base, **{field: flip(base[field], bit)})
+                yield dict(base, pos0=2)
+                yield dict(base, pub=pub_of(other))
+                yield dict(base, signature=b'\xff' * 64)
+                yield dict(base, signature=bytes(64))
+                yield dict(base, h0=base['h1'], pos0=base['pos1'], h1=base['h0'], pos1=base['pos0'])
+
+
+class EnvelopeClaim(Claim):
+    """the real Claim / Signable code with the protobuf message class replaced by the stand-in"""
+    __slots__ = ()
+    message_class = ClaimMsg
+
+
+@proof("C04", "channel.envelope")
+class Envelope:
+    """Signable.to_bytes / from_bytes / clear_signature: a signed claim is stored as 01 || channel hash (20) || signature (64) ||
+    message and an unsigned one as 00 || message; parsing gives the same channel hash, signature and message back"""
+    timeout = 6
+    inputs = dict(chash=H160, signature=TBytes(length=64), payload=MESSAGE)
+
+    def run(chash, signature, payload):
+        c = EnvelopeClaim(ClaimMsg('stream', payload))
+        plain = c.to_bytes()
+        c.signing_channel_hash = chash
+        c.signature = signature
+        raw = bytes(c)
+        back = EnvelopeClaim.from_bytes(raw)
+        back0 = EnvelopeClaim.from_bytes(plain)
+        c.clear_signature()
+        return (raw, (back.signing_channel_hash, back.signature, back.message.payload, back.is_signed, back.unsigned_payload),
+                plain, (back0.signing_channel_hash, back0.signature, back0.message.payload, back0.is_signed), c.to_bytes(), len(back))
+
+    def ensures_layout(chash, signature, payload, result):
+        return result[0] == envelope_spec(chash, signature, payload) and result[2] == b'\x00' + payload and result[4] == result[2]
+
+    def ensures_parses_back(chash, signature, payload, result):
+        return result[1] == (chash, signature, payload, True, None) and result[3] == (None, None, payload, False) \
+            and result[5] == 85 + len(payload)
+
+    def samples():
+        for n in (0, 1, 200, 60000):
+            yield dict(chash=bytes(range(20)), signature=bytes(range(64)), payload=bytes((i * 7) % 256 for i in range(n)))
+
+
+@proof("C04", "channel.digest-layout-injective")
+class LayoutInjective:
+    """LEMMA about the specified format (no repository code): two signed objects that differ in first input, channel hash or
+    message have different digest inputs (fixed-width prefix / suffix); with collision resistance of SHA-256 (H1) their
+    digests differ"""
+    timeout = 6
+    inputs = dict(h=HASH, pos=U32, chash=H160, msg=TBytes(), h_=HASH, pos_=U32, chash_=H160, msg_=TBytes(),
+                  addr=TBytes(length=25), addr_=TBytes(length=25))
+
+    def run(h, pos, chash, msg, h_, pos_, chash_, msg_, addr, addr_):
+        return (new_preimage_spec(h, pos, chash, msg) == new_preimage_spec(h_, pos_, chash_, msg_),
+                legacy_preimage_spec(addr, msg, chash) == legacy_preimage_spec(addr_, msg_, chash_))
+
+    def ensures_new_format(h, pos, chash, msg, h_, pos_, chash_, msg_, result):
+        return implies(result[0], h == h_ and pos == pos_ and chash == chash_ and msg == msg_)
+
+    def ensures_legacy_format(addr, chash, msg, addr_, chash_, msg_, result):
+        return implies(result[1], addr == addr_ and chash == chash_ and msg == msg_)
+
+    def samples():
+        a = dict(h=b'\x01' * 32, pos=1, chash=b'\x02' * 20, msg=b'\x02\x02', addr=b'\x55' * 25)
+        for k, v in (('h', b'\x03' * 32), ('pos', 2), ('chash', b'\x02' * 19 + b'\x01'), ('msg', b'\x02'), ('msg', b'\x02' * 22),
+                     ('addr', b'\x55' * 24 + b'\x02')):
+            d = dict(a)
+            d.update({x + '_': y for x, y in a.items()})
+            d[k + '_'] = v
+            yield d
+
+
+
+# ====================================================================================================================
+# Bounded stand-ins on the real wallet, real protobuf claims and real coincurve keys (never counted as proved).
+# Everything below that judges a result is byte-level code written here from the formats: an independent transaction
+# parser, script reader, protobuf wire walker, hash160 and the pure-Python ECDSA verifier above.
+# ====================================================================================================================
+
+def sha256d_independent(b):
+    import hashlib
+    return hashlib.sha256(hashlib.sha256(b).digest()).digest()
+
+
+def hash160_independent(b):
+    import hashlib
+    r = hashlib.new('ripemd160')
+    r.update(hashlib.sha256(b).digest())
+    return r.digest()
+
+
+def parse_tx(raw):
+    """independent parser of the (non-segwit) Bitcoin transaction encoding -> version, ins, outs, locktime"""
+    at = [0]
+
+    def take(n):
+        b = raw[at[0]:at[0] + n]
+        if len(b) != n:
+            raise ValueError('short read')
+        at[0] += n
+        return b
+
+    def u(n):
+        return int.from_bytes(take(n), 'little')
+
+    def compact():
+        n = u(1)
+        return n if n < 253 else u({253: 2, 254: 4, 255: 8}[n])
+    version = u(4)
+    ins = [(take(32), u(4), take(compact()), u(4)) for _ in range(compact())]
+    outs = [(u(8), take(compact())) for _ in range(compact())]
+    locktime = u(4)
+    if at[0] != len(raw):
+        raise ValueError('trailing bytes')
+    return version, ins, outs, locktime
+
+
+def script_items(script):
+    """independent reader of a script: pushed data as bytes, every other opcode as int"""
+    out, at = [], 0
+    while at < len(script):
+        op = script[at]
+        at += 1
+        if op == 0:
+            out.append(b'')
+        elif op < 76:
+            out.append(script[at:at + op])
+            at += op
+        elif op in (76, 77, 78):
+            w = {76: 1, 77: 2, 78: 4}[op]
+            n = int.from_bytes(script[at:at + w], 'little')
+            at += w
+            out.append(script[at:at + n])
+            at += n
+        else:
+            out.append(op)
+    return out
+
+
+def signable_bytes_of(script):
+    """the claim / support bytes of a claim, update or support-with-data script (the push before the OP_2DROP ... tail)"""
+    items = script_items(script)
+    return items[2] if items[0] == 0xb5 else items[3]
+
+
+def pb_fields(data):
+    """independent protobuf wire walker: top-level fields as (field number, offset, end offset, payload offset)"""
+    out, at = [], 0
+
+    def varint(at):
+        v = shift = 0
+        while True:
+            b = data[at]
+            at += 1
+            v |= (b & 0x7f) << shift
+            shift += 7
+            if not b & 0x80:
+                return v, at
+    while at < len(data):
+        start = at
+        key, at = varint(at)
+        wt = key & 7
+        body = at
+        if wt == 0:
+            _, at = varint(at)
+        elif wt == 2:
+            n, at = varint(at)
+            body = at
+            at += n
+        elif wt == 1:
+            at += 8
+        elif wt == 5:
+            at += 4
+        else:
+            raise ValueError('wire type')
+        out.append((key >> 3, start, at, body))
+    return out
+
+
+def input_problems(raw, spent_scripts):
+    """every input of the raw transaction is <sig||01> <pubkey>, the public key hashes to the hash the spent script pays to, and the
+    signature verifies (independent verifier) for the independently computed SIGHASH_ALL digest"""
+    problems = []
+    version, ins, outs, locktime = parse_tx(raw)
+    if len(ins) != len(spent_scripts):
+        return ['input count differs']
+    for i, (h, pos, script, seq) in enumerate(ins):
+        items = script_items(script)
+        if len(items) != 2 or not all(isinstance(x, bytes) for x in items):
+            problems.append(f'input {i}: script is not two pushes')
+            continue
+        sig, pub = items
+        spent = spent_scripts[i]
+        if spent[-25:-22] != b'\x76\xa9\x14' or spent[-2:] != b'\x88\xac':
+            problems.append(f'input {i}: spent script does not end in pay-to-pubkey-hash')
+            continue
+        if hash160_independent(pub) != spent[-22:-2]:
+            problems.append(f'input {i}: public key does not hash to what the spent output pays to')
+        if sig[-1:] != b'\x01':
+            problems.append(f'input {i}: hash type byte is not SIGHASH_ALL')
+        try:
+            r, s = der_decode(sig[:-1])
+        except (ValueError, IndexError) as e:
+            problems.append(f'input {i}: signature is not DER ({e})')
+            continue
+        pre = sighash_all_preimage(version, [(a, b, b'', d) for (a, b, c, d) in ins], outs, locktime, i, spent)
+        if not py_ecdsa_verify_rs(pub, r, s, sha256d_independent(pre)):
+            problems.append(f'input {i}: signature does not verify under the SIGHASH_ALL digest')
+    return problems
+
+
+def channel_signature_problems(raw, out_index, channel_pub, channel_claim_hash):
+    """the signed object in output out_index of the raw transaction names the channel and carries a signature that verifies
+    (independent verifier) under the channel key for the new-format digest"""
+    version, ins, outs, locktime = parse_tx(raw)
+    env = signable_bytes_of(outs[out_index][1])
+    if env[:1] != b'\x01' or len(env) < 85:
+        return ['no signed envelope']
+    chash, sig, msg = env[1:21], env[21:85], env[85:]
+    problems = []
+    if chash != channel_claim_hash:
+        problems.append('envelope does not name the channel')
+    import hashlib
+    digest = hashlib.sha256(ins[0][0] + ins[0][1].to_bytes(4, 'little') + chash + msg).digest()
+    if not py_ecdsa_verify(channel_pub, sig, digest):
+        problems.append('channel signature does not verify (independent verifier)')
+    return problems
+
+
+def validates(txo, channel):
+    """the real validation; anything but True (False or an exception) is 'does not validate'"""
+    try:
+        return txo.is_signed_by(channel, Ledger) is True
+    except Exception:       # noqa
+        return False
+
+
+def reparsed_output(version, ins, outs, locktime, index):
+    try:
+        return Transaction(enc_tx(version, ins, outs, locktime)).outputs[index]
+    except Exception:       # noqa
+        return None
+
+
+def flip_bit(b, bit):
+    m = bytearray(b)
+    m[bit // 8] ^= 1 << (bit % 8)
+    return bytes(m)
+
+
+SEED_A = "carbon smart garage balance margin twelve chest sword toast envelope bottom stomach absent"
+SEED_B = "ability absent absorb"
+
+
+async def real_wallet():
+    """the real Ledger + sqlite Database + two Accounts of one wallet with their address chains"""
+    import os
+    import tempfile
+    from lbry.wallet import Wallet, Account, Ledger as RealLedger, Database, Headers
+    d = tempfile.mkdtemp()
+    ledger = RealLedger({'db': Database(os.path.join(d, 'blockchain.db')), 'headers': Headers(':memory:')})
+    await ledger.db.open()
+    wallet = Wallet()
+    a = Account.from_dict(ledger, wallet, {"seed": SEED_A})
+    b = Account.from_dict(ledger, wallet, {"seed": SEED_B})
+    ha = [ledger.address_to_hash160(x) for x in await a.ensure_address_gap()]
+    hb = [ledger.address_to_hash160(x) for x in await b.ensure_address_gap()]
+    return d, ledger, a, b, ha, hb
+
+
+def real_channel(secret, position=0, updated_id=None):
+    """a channel output with its key in a transaction of its own (a new claim, or an update of claim id updated_id)"""
+    claim = Claim()
+    claim.channel.title = 'a channel'
+    if updated_id is None:
+        txo = Output.pay_claim_name_pubkey_hash(1000000, '@chan', claim, b'\x31' * 20)
+    else:
+        txo = Output.pay_update_claim_pubkey_hash(1000000, '@chan', updated_id, claim, b'\x31' * 20)
+    txo.set_channel_private_key(PrivateKey.from_bytes(Ledger, secret))
+    funding = Transaction().add_outputs([Output.pay_pubkey_hash(10 ** 8, b'\x32' * 20)]).outputs[0]
+    tx = Transaction().add_inputs([Input.spend(funding)])
+    tx.add_outputs([Output.pay_pubkey_hash(1, b'\x33' * 20) for _ in range(position)] + [txo])
+    return txo
+
+
+def channel_claim_hash_independent(channel_txo, updated_id=None):
+    if updated_id is not None:
+        return bytes.fromhex(updated_id)[::-1]
+    return hash160_independent(sha256d_independent(channel_txo.tx_ref.tx._serialize()) + channel_txo.position.to_bytes(4, 'big'))
+
+
+def rich_claim(kind):
+    from decimal import Decimal
+    c = Claim()
+    if kind == 'stream':
+        s = c.stream
+        s.title, s.description, s.author, s.license, s.license_url = 'Title', 'descr ' * 10, 'me', 'MIT', 'http://x'
+        s.thumbnail.url = 'http://thumb'
+        s.languages.append('en')
+        s.tags.append('tag1')
+        s.tags.append('mature')
+        s.source.sd_hash, s.source.media_type, s.source.name, s.source.size = 'cd' * 48, 'video/mp4', 'f.mp4', 123456
+        s.release_time = 1600000000
+        s.video.width, s.video.height, s.video.duration = 1920, 1080, 100
+        s.fee.lbc = Decimal('1.5')
+        s.fee.address_bytes = b'\x55' + b'\x01' * 24
+    elif kind == 'repost':
+        c.repost.reference.claim_id = 'ab' * 20
+    elif kind == 'collection':
+        c.collection.claims.append('cd' * 20)
+        c.collection.claims.append('ef' * 20)
+        c.collection.title = 'list'
+    elif kind == 'empty':
+        c.stream.title = ''
+    return c
+
+
+def signable_output(kind, holder):
+    if kind == 'support':
+        s = Support()
+        s.comment = 'well done'
+        return Output.pay_support_data_pubkey_hash(1000, 'foo', 'ab' * 20, s, holder)
+    if kind == 'update':
+        return Output.pay_update_claim_pubkey_hash(1000, 'foo', 'cd' * 20, rich_claim('stream'), holder)
+    return Output.pay_claim_name_pubkey_hash(1000, 'foo', rich_claim(kind), holder)
+
+
+@proof("C04", "real.transaction-sign")
+class RealTransactionSign:
+    """BOUNDED stand-in on the real Ledger + Database (sqlite) + two Accounts and real coincurve keys: transactions with 1..4
+    inputs from different keys of both accounts, spending plain and claim outputs, with P2PKH / signed claim / channel / signed
+    support / signed update / purchase outputs, signed by the real Transaction.sign (directly, and through the daemon's flow
+    claim_create -> Output.sign -> Transaction.sign with coin selection on the database); every input is judged by the independent
+    parser + SIGHASH_ALL digest + ECDSA verifier; signing again and signing after a later change of the outputs"""
+    bounded_only = True
+    note = "1..4 inputs x 6 output mixes, alternately signed directly / funded from the database by coin selection: 24 " \
+           "transactions, each verified three times (signed, re-signed, changed and re-signed) plus one negative control"
+    inputs = dict(case=TInt(0, 23))
+
+    def run(case):
+        import asyncio
+        import shutil
+        from lbry.schema.purchase import Purchase
+        from lbry.wallet.constants import CENT, COIN
+        n_in, mix, funded = 1 + case % 4, (case // 4) % 6, (case // 4 + case) % 2 == 1
+
+        async def go():
+            d, ledger, a, b, ha, hb = await real_wallet()
+            try:
+                problems = []
+                channel = real_channel(bytes([5 + case]) * 32, position=case % 2)
+                holder = ha[7]
+                # the outputs offered for spending: alternately from both accounts, distinct keys; for an update the claim itself
+                # (when the wallet is to fund the transaction from the database they are too small to pay for it)
+                utxos = [Transaction(height=5).add_outputs([Output.pay_pubkey_hash(1000 if funded else COIN,
+                                                                                   (ha if i % 2 == 0 else hb)[3 * i + case % 3])
+                                                            ]).outputs[0] for i in range(n_in)]
+                previous = None
+                if mix == 4:
+                    previous = Transaction(height=5).add_outputs([Output.pay_pubkey_hash(1, ha[0]), Output.pay_claim_name_pubkey_hash(
+                        CENT, 'foo', rich_claim('stream'), hb[11])]).outputs[1]
+                    utxos[0] = previous
+                scripts = {(u.tx_ref.hash, u.position): bytes(u.script.source) for u in utxos}
+                signed_index = None
+                if mix == 0:
+                    outs = [Output.pay_pubkey_hash(CENT, b'\x09' * 20)]
+                elif mix == 1:
+                    outs, signed_index = [signable_output(('stream', 'repost', 'collection', 'empty')[case % 4], holder),
+                                          Output.pay_pubkey_hash(CENT, hb[2])], 0
+                elif mix == 2:
+                    outs = [real_channel(bytes([77]) * 32), Output.pay_pubkey_hash(CENT, hb[2])]
+                elif mix == 3:
+                    outs, signed_index = [signable_output('support', holder)], 0
+                elif mix == 4:
+                    outs, signed_index = [Output.pay_update_claim_pubkey_hash(CENT, 'foo', previous.claim_id, rich_claim('repost'), holder)], 0
+                else:
+                    outs = [Output.pay_pubkey_hash(CENT, b'\x09' * 20), Output.add_purchase_data(Purchase('ab' * 20))]
+                if funded:
+                    # the wallet picks further inputs itself: its outputs have to be in the database
+                    funding = Transaction(is_verified=True, height=5).add_inputs([Input.spend(
+                        Transaction().add_outputs([Output.pay_pubkey_hash(10 * COIN, NULL_HASH32)]).outputs[0])])
+                    owned = [Output.pay_pubkey_hash(COIN // 4, (ha if i % 2 else hb)[i + 1]) for i in range(6)]
+                    funding.add_outputs(owned)
+                    await ledger.db.insert_transaction(funding)
+                    for u in owned:
+                        await ledger.db.save_transaction_io(funding, ledger.hash160_to_address(u.script.values['pubkey_hash']),
+                                                            u.script.values['pubkey_hash'], '')
+                        scripts[(funding.hash, u.position)] = bytes(u.script.source)
+                    if signed_index is not None:
+                        outs[signed_index].sign(channel, b'placeholder txid:nout')
+                    tx = await Transaction.create([Input.spend(u) for u in utxos], outs, [a, b], a, sign=False)
+                else:
+                    tx = Transaction().add_inputs([Input.spend(u) for u in utxos]).add_outputs(outs)
+                if signed_index is not None:
+                    tx.outputs[signed_index].sign(channel)
+                await tx.sign([a, b])
+
+                def judge(label):
+                    raw = bytes(tx.raw)
+                    spent = [scripts[(i.txo_ref.tx_ref.hash, i.txo_ref.position)] for i in tx.inputs]
+                    found = [f'{label}: {p}' for p in input_problems(raw, spent)]
+                    if tx.id != sha256d_independent(raw)[::-1].hex():
+                        found.append(f'{label}: id is not the double SHA-256 of the signed serialisation')
+                    if signed_index is not None:
+                        found += [f'{label}: {p}' for p in channel_signature_problems(
+                            raw, signed_index, pub_of(bytes([5 + case]) * 32), channel_claim_hash_independent(channel))]
+                        if not validates(Transaction(raw).outputs[signed_index], channel):
+                            found.append(f'{label}: re-parsed output does not validate against its channel')
+                    return found, raw, spent
+                found, raw, spent = judge('signed')
+                problems += found
+                if funded and len(tx.inputs) <= n_in:
+                    problems.append('coin selection added nothing (the case does not exercise what it claims)')
+                # negative control: the signatures commit to the outputs
+                version, ins, outs_, locktime = parse_tx(raw)
+                tampered = enc_tx(version, ins, [(outs_[0][0] ^ 1, outs_[0][1])] + outs_[1:], locktime)
+                if len(input_problems(tampered, spent)) != len(ins):
+                    problems.append('negative control: a changed output amount is not noticed by every input signature')
+                await tx.sign([a, b])                                   # history: scripts of an earlier signing are in place
+                if bytes(tx.raw) != raw:                                # (deterministic nonces: normally the very same bytes)
+                    problems += judge('re-signed')[0]
+                tx.add_outputs([Output.pay_pubkey_hash(777, b'\x0a' * 20)])
+                tx.locktime = 400000 + case
+                await tx.sign([a, b])
+                problems += judge('changed and re-signed')[0]
+                return problems
+            finally:
+                await ledger.db.close()
+                shutil.rmtree(d, ignore_errors=True)
+        return asyncio.run(go())
+
+    def ensures_no_problem(result):
+        return result == []
+
+    def samples():
+        for k in range(24):
+            yield dict(case=(k * 7) % 24)       # a fixed permutation: every dimension early if the time budget cuts the run
+
+
+CHANNEL_CASES = (('stream', 0, None), ('repost', 1, None), ('collection', 0, 'ee' * 20), ('support', 2, None), ('update', 0, None),
+                 ('empty', 1, 'aa' * 20))
+
+
+@proof("C04", "real.channel-sign")
+class RealChannelSign:
+    """BOUNDED stand-in with real protobuf claims and real channel keys: Output.sign, serialisation, re-parsing, is_signed_by, the
+    independent verification of the stored envelope - and EVERY single-bit mutation of the message, of the channel hash, of the
+    signature and of the first input's outpoint, another channel key, a channel with the same name but another key, exchanged
+    inputs, an out-of-range signature and an API-level content change stop validating"""
+    bounded_only = True
+    note = "6 signed objects (rich stream, repost, collection, support, update, empty stream) x channels that are new claims at " \
+           "index 0..2 or updates x all single-bit mutations (about 1200..3000 per object)"
+    inputs = dict(case=TInt(0, 5))
+
+    def run(case):
+        kind, position, updated_id = CHANNEL_CASES[case]
+        secret = bytes([40 + case]) * 32
+        channel = real_channel(secret, position, updated_id)
+        txo = signable_output(kind, b'\x41' * 20)
+        f1 = Transaction().add_outputs([Output.pay_pubkey_hash(10 ** 8, b'\x32' * 20) for _ in range(3)]).outputs[2]
+        f2 = Transaction().add_outputs([Output.pay_pubkey_hash(10 ** 8, b'\x35' * 20)]).outputs[0]
+        tx = Transaction().add_inputs([Input.spend(f1), Input.spend(f2)]).add_outputs([Output.pay_pubkey_hash(5, b'\x36' * 20), txo])
+        txo.sign(channel)
+        problems = []
+        if not validates(txo, channel):
+            problems.append('does not validate right after signing')
+        raw = bytes(tx._serialize())
+        # the channel as another wallet sees it: parsed from its transaction
+        seen = Transaction(bytes(channel.tx_ref.tx._serialize())).outputs[channel.position]
+        problems += channel_signature_problems(raw, 1, pub_of(secret), channel_claim_hash_independent(channel, updated_id))
+        version, ins, outs, locktime = parse_tx(raw)
+        if not validates(reparsed_output(version, ins, outs, locktime, 1), seen):
+            problems.append('does not validate after serialisation and parsing')
+        script = outs[1][1]
+        env = signable_bytes_of(script)
+        at = script.find(env)
+        regions = dict(message=(at + 85, len(env) - 85), channel_hash=(at + 1, 20), signature=(at + 21, 64))
+        survivors = []
+        for name, (start, length) in regions.items():
+            for bit in range(8 * length):
+                changed = script[:start] + flip_bit(script[start:start + length], bit) + script[start + length:]
+                o = reparsed_output(version, ins, [outs[0], (outs[1][0], changed)], locktime, 1)
+                if o is not None and validates(o, seen):
+                    survivors.append(f'{name} bit {bit}')
+        outpoint = ins[0][0] + ins[0][1].to_bytes(4, 'little')
+        for bit in range(8 * 36):
+            m = flip_bit(outpoint, bit)
+            o = reparsed_output(version, [(m[:32], int.from_bytes(m[32:], 'little'), ins[0][2], ins[0][3]), ins[1]], outs, locktime, 1)
+            if o is not None and validates(o, seen):
+                survivors.append(f'first input bit {bit}')
+        o = reparsed_output(version, [ins[1], ins[0]], outs, locktime, 1)
+        if validates(o, seen):
+            survivors.append('inputs exchanged')
+        if validates(reparsed_output(version, ins, outs, locktime, 1), real_channel(bytes([90 + case]) * 32, position, updated_id)):
+            survivors.append('another channel key')
+        bad_sig = script[:regions['signature'][0]] + b'\xff' * 64 + script[regions['signature'][0] + 64:]
+        if validates(reparsed_output(version, ins, [outs[0], (outs[1][0], bad_sig)], locktime, 1), seen):
+            survivors.append('signature ff..ff')
+        if kind == 'support':
+            txo.support.comment = 'changed'
+        else:
+            (txo.claim.repost.reference if kind == 'update' and False else txo.claim).message.title = 'changed'
+        if validates(txo, channel):
+            survivors.append('content changed through the API')
+        return problems + [f'still validates after: {s}' for s in survivors[:5]]
+
+    def ensures_no_problem(result):
+        return result == []
+
+    def samples():
+        for case in range(6):
+            yield dict(case=case)
+
+
+def legacy_vector(k):
+    stream_raw, channel_raw = ((YTSYNC_STREAM_TX, YTSYNC_CHANNEL_TX), (YTSYNC2_STREAM_TX, YTSYNC2_CHANNEL_TX),
+                               (ECDSA_STREAM_TX, ECDSA_CHANNEL_TX))[k]
+    return bytes.fromhex(stream_raw), bytes.fromhex(channel_raw)
+
+
+# the fixed SubjectPublicKeyInfo header of an uncompressed secp256k1 key (RFC 5480: id-ecPublicKey, secp256k1, BIT STRING of 66)
+SPKI_HEAD = bytes.fromhex('3056301006072a8648ce3d020106052b8104000a034200')
+
+
+@proof("C04", "legacy-vectors")
+class LegacyVectors:
+    """BOUNDED stand-in: signatures made by earlier releases (recorded main-net transactions from
+    tests/unit/wallet/test_schema_signing.py: a 2018 legacy-format claim and certificate made by ytsync, a 2022 claim by ytsync, a
+    claim signed with python-ecdsa; all three channels publish DER-wrapped keys) still validate - by the real code and by an
+    independent recomputation of the digest (own transaction / script / protobuf readers) and the independent verifier - and stop
+    validating under single-bit mutations of the signed content, the signature and the channel id, and against another channel"""
+    bounded_only = True
+    note = "3 recorded claim/channel pairs; all single-bit mutations of signature and channel id, every bit (vector 1: every 3rd bit) " \
+           "of the signed content"
+    inputs = dict(k=TInt(0, 2))
+
+    def run(k):
+        import hashlib
+        stream_raw, channel_raw = legacy_vector(k)
+        stream, channel = Transaction(stream_raw).outputs[0], Transaction(channel_raw).outputs[0]
+        problems = []
+        if not validates(stream, channel):
+            problems.append('recorded signature does not validate')
+        # independent recomputation
+        version, ins, outs, locktime = parse_tx(stream_raw)
+        channel_script = parse_tx(channel_raw)[2][0][1]
+        at = channel_script.find(SPKI_HEAD)
+        point = channel_script[at + len(SPKI_HEAD):at + len(SPKI_HEAD) + 65]
+        pub = bytes([2 + point[64] % 2]) + point[1:33]
+        channel_hash = hash160_independent(sha256d_independent(channel_raw) + (0).to_bytes(4, 'big'))
+        script = outs[0][1]
+        claim = signable_bytes_of(script)
+        base = script.find(claim)
+        if claim[0] == 1:
+            chash, sig, msg = claim[1:21], claim[21:85], claim[85:]
+            digest = hashlib.sha256(ins[0][0] + ins[0][1].to_bytes(4, 'little') + chash + msg).digest()
+            regions = dict(content=(base + 85, len(claim) - 85), signature=(base + 21, 64), channel_id=(base + 1, 20))
+        else:
+            # 2018 format: Claim { 1 version, 2 claimType, 3 stream, 4 certificate, 5 publisherSignature { 1 version, 2 type,
+            # 3 signature, 4 certificateId } }; signed: decoded address || claim without field 5 || certificateId
+            fields = pb_fields(claim)
+            sigf = [f for f in fields if f[0] == 5][0]
+            sub = {f[0]: f for f in pb_fields(claim[sigf[3]:sigf[2]])}
+            sig = claim[sigf[3] + sub[3][3]:sigf[3] + sub[3][2]]
+            cert = claim[sigf[3] + sub[4][3]:sigf[3] + sub[4][2]]
+            chash = cert[::-1]
+            unsigned = b''.join(claim[f[1]:f[2]] for f in fields if f[0] != 5)
+            raw_address = b'\x55' + script[-22:-2]
+            digest = hashlib.sha256(raw_address + sha256d_independent(raw_address)[:4] + unsigned + cert).digest()
+            content = [f for f in fields if f[0] == 3][0]
+            regions = dict(content=(base + content[1], content[2] - content[1]), signature=(base + sigf[3] + sub[3][3], 64),
+                           channel_id=(base + sigf[3] + sub[4][3], 20))
+        if chash != channel_hash:
+            problems.append('independent: the claim does not name the channel claim')
+        if not py_ecdsa_verify(pub, sig, digest):
+            problems.append('independent: signature does not verify for the recomputed digest')
+        survivors = []
+        for name, (start, length) in regions.items():
+            step = 3 if (k == 1 and name == 'content') else 1
+            for bit in range(0, 8 * length, step):
+                changed = script[:start] + flip_bit(script[start:start + length], bit) + script[start + length:]
+                o = reparsed_output(version, ins, [(outs[0][0], changed)] + outs[1:], locktime, 0)
+                if o is not None and validates(o, channel):
+                    survivors.append(f'{name} bit {bit}')
+        other = Transaction(legacy_vector((k + 1) % 3)[1]).outputs[0]
+        if validates(stream, other):
+            survivors.append('another channel')
+        if claim[0] == 1:
+            m = flip_bit(ins[0][0], 5)
+            if validates(reparsed_output(version, [(m, ins[0][1], ins[0][2], ins[0][3])] + ins[1:], outs, locktime, 0), channel):
+                survivors.append('another first input')
+        return problems + [f'still validates after: {s}' for s in survivors[:5]]
+
+    def ensures_no_problem(result):
+        return result == []
+
+    def samples():
+        for k in range(3):
+            yield dict(k=k)
+
+
+# ---- recorded transactions (copied from /repo/tests/unit/wallet/test_schema_signing.py)
+
+YTSYNC_STREAM_TX = (
+    '0100000001eb2a756e15bde95db3d2ae4a6e9b2796a699087890644607b5b04a5f15b67062010000006a47304402206444b920bd318a07d9b982e30e'
+    'b66245fdaaa6c9866e1f6e5900161d9b0ffd700220364647144f1830898a2042aa0d6cef95a243799cc6e36630a58d411e2f9111f00121029b15f9a0'
+    '0a7c3f21b10bd4b98ab23a9e895bd9160e21f71317862bf55fbbc89effffffff0240420f0000000000fd1503b522686572652d6172652d352d726561'
+    '736f6e732d692d6e657874636c6f75642d746c674dd302080110011aee04080112a604080410011a2b4865726520617265203520526561736f6e7320'
+    '4920e29da4efb88f204e657874636c6f7564207c20544c4722920346696e64206f7574206d6f72652061626f7574204e657874636c6f75643a206874'
+    '7470733a2f2f6e657874636c6f75642e636f6d2f0a0a596f752063616e2066696e64206d65206f6e20746865736520736f6369616c733a0a202a2046'
+    '6f72756d733a2068747470733a2f2f666f72756d2e6865617679656c656d656e742e696f2f0a202a20506f64636173743a2068747470733a2f2f6f66'
+    '66746f706963616c2e6e65740a202a2050617472656f6e3a2068747470733a2f2f70617472656f6e2e636f6d2f7468656c696e757867616d65720a20'
+    '2a204d657263683a2068747470733a2f2f746565737072696e672e636f6d2f73746f7265732f6f6666696369616c2d6c696e75782d67616d65720a20'
+    '2a205477697463683a2068747470733a2f2f7477697463682e74762f786f6e64616b0a202a20547769747465723a2068747470733a2f2f7477697474'
+    '65722e636f6d2f7468656c696e757867616d65720a0a2e2e2e0a68747470733a2f2f7777772e796f75747562652e636f6d2f77617463683f763d4672'
+    '546442434f535f66632a0f546865204c696e75782047616d6572321c436f7079726967687465642028636f6e7461637420617574686f722938004a29'
+    '68747470733a2f2f6265726b2e6e696e6a612f7468756d626e61696c732f4672546442434f535f666352005a001a41080110011a30040e8ac6e89c06'
+    '1f982528c23ad33829fd7146435bf7a4cc22f0bff70c4fe0b91fd36da9a375e3e1c171db825bf5d1f32209766964656f2f6d70342a5c080110031a40'
+    '62b2dd4c45e364030fbfad1a6fefff695ebf20ea33a5381b947753e2a0ca359989a5cc7d15e5392a0d354c0b68498382b2701b22c03beb8dcb910890'
+    '31b871e72214feb61536c007cdf4faeeaab4876cb397feaf6b516d7576a914f4f43f6f7a472bbf27fa3630329f771135fc445788ac86ff0600000000'
+    '001976a914cef0fe3eeaf04416f0c3ff3e78a598a081e70ee788ac00000000'
+)
+
+YTSYNC_CHANNEL_TX = (
+    '010000000192a1e1e3f66b8ca05a021cfa5fb6645ebc066b46639ccc9b3781fa588a88da65010000006a47304402206be09a355f6abea8a10b551218'
+    '0cd258460b42d516b5149431ffa3230a02533a0220325e83c6176b295d633b18aad67adb4ad766d13152536ac04583f86d14645c9901210269c63bc8'
+    'bac8143ef02f9724a4ab35b12bdfa65ee1ad8c0db3d6511407a4cc2effffffff0240420f000000000091b50e405468654c696e757847616d65724c64'
+    '08011002225e0801100322583056301006072a8648ce3d020106052b8104000a034200043878b1edd4a1373149909ef03f4339f6da9c2bd2214c040f'
+    'd2e530463ffe66098eca14fc70b50ff3aefd106049a815f595ed5a13eda7419ad78d9ed7ae473f176d7576a914994dad5f21c384ff526749b876d9d0'
+    '17d257b69888ac00dd6d00000000001976a914979202508a44f0e8290cea80787c76f98728845388ac00000000'
+)
+
+YTSYNC2_STREAM_TX = (
+    '010000000185870fabdd6bd2d57749afebc0b239e8d0ebeb6f3647d6cfcabd5ea2200ac632010000006b483045022100877c86de154e39f21959bc21'
+    '57865071924adb7930a7a8910714f27398cd2689022074270f074ae260fff319d5e0c030691821bc75b82ff0179898ac3eaeda4123eb01210200328f'
+    '7f001f22ea25d72ba37379e3065020c4d8371d9199dc4e3770084e26b9ffffffff0240420f0000000000fdcc05b5277468652d637269746963616c2d'
+    '6e6565642d666f722d696e646570656e64656e742d6d656469614d85050191bbad064bdc455b9ebddeeb559686b13f027615384ec7c9d981c3c21a6e'
+    '3d723a654e86bd707d21174c4f697f5080cf367a3b2dfc059e6cc14a962631df69b9886f4d8b97cb339b14633966fd5ac7d75edacdf30ac5010a9001'
+    '0a304af34d1c1467ebfc8785e2a49c7d5bec3cc6db94db858f1dcf95e4256564fba586d6e01f496df2a34344e021d2725ffd12197468652d63726974'
+    '6963616c2d6e6565642d666f722e6d703418ee97eac1022209766964656f2f6d70343230ba13e6b667a9acef7e1b1caa88b9eb1d4680dea84b1d3e83'
+    '8266595805ab3343855c20af35012f942ce0d5111ce080331a1f436f7079726967687465642028636f6e74616374207075626c69736865722928e2e3'
+    'c98d065a0908800f10b80818f314423954686520437269746963616c204e65656420666f7220496e646570656e64656e74204d65646961207c20476c'
+    '656e6e20477265656e77616c644af006496e636c7564657320616e20696e74726f64756374696f6e20627920546f6d20576f6f64732e205265636f72'
+    '64656420696e204c616b65204a61636b736f6e2c2054657861732c206f6e20446563656d62657220342c20323032312e0a0a526f6e205061756c2773'
+    '2074776f2063616d706169676e7320666f7220707265736964656e7420283230303820616e6420323031322920776572652077617465727368656420'
+    '6d6f6d656e747320666f72206c6962657274792d6d696e6465642070656f706c652061726f756e642074686520776f726c642e205468652022526f6e'
+    '205061756c205265766f6c7574696f6e22e2809463656e74657265642061726f756e642068697320756e64696c75746564206d657373616765206f66'
+    '2070656163652c2070726f70657274792c20616e64206d61726b657473e280946368616e6765642074686520776179206d696c6c696f6e732074686f'
+    '756768742061626f75742074686520416d65726963616e20656d7069726520616e642074686520416d65726963616e2066696e616e6369616c207379'
+    '7374656d2e2044722e205061756c277320666f637573206f6e2063656e7472616c2062616e6b696e6720616e6420666f726569676e20706f6c696379'
+    '2063617567687420706f6c6974696369616e7320616e642070756e64697473206f66662067756172642c20666f7263696e67207468656d20746f2073'
+    '6372616d626c6520666f72206578706c616e6174696f6e73206f66206f7572204d6964646c65204561737420706f6c69637920616e6420536f766965'
+    '742d7374796c652063656e7472616c20706c616e6e696e6720617420746865204665642e20506f6c697469637320696e20416d657269636120686173'
+    '206e6f74206265656e207468652073616d652073696e63652074686520224769756c69616e69206d6f6d656e742220616e642022456e642074686520'
+    '4665642e222054686520526f6e205061756c205265766f6c7574696f6e2077617320626f7468206120706f6c69746963616c20616e642063756c7475'
+    '72616c207068656e6f6d656e6f6e2e0a0a303a303020496e74726f64756374696f6e20627920546f6d20576f6f64730a343a323720476c656e6e2047'
+    '7265656e77616c640a2e2e2e0a68747470733a2f2f7777772e796f75747562652e636f6d2f77617463683f763d4e4b70706d52467673453052292a27'
+    '68747470733a2f2f7468756d626e61696c732e6c6272792e636f6d2f4e4b70706d5246767345305a046e6577735a0963617468656472616c5a0f636f'
+    '72706f72617465206d656469615a08637269746963616c5a0f676c656e6e20677265656e77616c645a0b696e646570656e64656e745a0a6a6f75726e'
+    '616c69736d5a056d656469615a056d697365735a08706f6c69746963735a0a70726f706167616e64615a08726f6e207061756c5a0574727574686202'
+    '08016d7576a9140969964db5b5744e2d2d0de797f5904efc80d02188acc8814200000000001976a91439086597f9cfc066f4749b8bb245bf561714fd'
+    'a888ac00000000'
+)
+
+YTSYNC2_CHANNEL_TX = (
+    '01000000011d47b91b409b317e427adb87ec4b0bfc9fad2abf6ec3296f41918e4b3cb9d4e7010000006a47304402205e53ef7fc643ed00f0240dd1c3'
+    '302b82141f481ed071cbcdd6b6ec6166ffd4e002203eb28ce639f80253f66ff3bf45288a60133d7f5625217d1ecf3b57da440b559f012103b852d610'
+    '74eb995b702a800f284e937ece4fea7f023beb70e6b0d1bff36d64b9ffffffff0240420f0000000000fdde01b506406d697365734db801001299010a'
+    '583056301006072a8648ce3d020106052b8104000a034200047ddb1d639d7bdd0953d9ab0bf9e971a632f85f9823c1d85780aa3e0a702b503c2962d0'
+    '0f67360e803514bf5864710925aacbeffd9597532c7e60eb21b4e3fd03223d2a3b68747470733a2f2f7468756d626e61696c732e6c6272792e636f6d'
+    '2f62616e6e65722d55436d54362d43684b7061694956753266684549734e7451420a6d697365736d656469614ad40146656174757265642076696465'
+    '6f732066726f6d20746865204d6973657320496e737469747574652e20546865204d6973657320496e737469747574652070726f6d6f746573204175'
+    '73747269616e2065636f6e6f6d6963732c2066726565646f6d2c20616e6420706561636520696e20746865206c69626572616c20696e74656c6c6563'
+    '7475616c20747261646974696f6e206f66204c756477696720766f6e204d69736573207468726f7567682072657365617263682c207075626c697368'
+    '696e672c20616e6420656475636174696f6e2e52362a3468747470733a2f2f7468756d626e61696c732e6c6272792e636f6d2f55436d54362d43684b'
+    '7061694956753266684549734e74516d7576a914cd77ded2400e6569f03a2580244bb395f95f91fc88ac344ab701000000001976a914cabdbfce726d'
+    '2fda92ffe0041a4303f6c6c34cda88ac00000000'
+)
+
+ECDSA_CHANNEL_TX = (
+    '0100000001b91d829283c0d80cb8113d5f36b6da3dfe9df3e783f158bfb3fd1b2b178d7fc9010000006b483045022100f4e2b4ee38388c3d3a62f4b1'
+    '2fdd413f6f140168e85884bbeb33a3f2d3159ef502201721200f4a4f3b87484d4f47c9054e31cd3ba451dd3886a7f9f854893e7c8cf90121023f9e90'
+    '6e0c120f3bf74feb40f01ddeafbeb1856d91938c3bef25bed06767247cffffffff0200e1f5050000000081b505406368616e4c5d00125a0a58305630'
+    '1006072a8648ce3d020106052b8104000a03420004d7fa13fd8e57f3a0b878eaaf3d179144d25ddbe4a3e4440a661f51b4134c6a13c9c98678ff8411'
+    '932e60fd97d7baf03ea67ebcc21097230cfb2241348aadb55e6d7576a9149c6d700f89c77f0e8c650ba05656f8f2392782d388acf47c953500000000'
+    '1976a914d9502233e0e1fc76e13e36c546f704c3124d5eaa88ac00000000'
+)
+
+ECDSA_STREAM_TX = (
+    '010000000116a1d90763f2e3a2348c7fb438a23f232b15e3ffe3f058c3b2ab52c8bed8dcb5010000006b4830450221008f38561b3a16944c63b4f4f1'
+    '562f1efe1b2060f31d249e234003ee5e3461756f02205773c99e83c968728e4f2433a13871c6ad23f6c10368ac52fa62a09f3f7ef5fd012102597f39'
+    '845b98e2415b777aa03849d346d287af7970deb05f11214b3418ae9d82ffffffff0200e1f50500000000fd0c01b505636c61696d4ce8012e6e40fa5f'
+    'ee1b915af3b55131dcbcebee34ab9148292b084ce3741f2e0db49783f3d854ac885f2b6304a76ef7048046e338dd414ba4c64e8468651768ffaaf550'
+    'c8560637ac8c477ea481ac2a9264097240f4ab0a90010a8d010a3056bf5dbae43f77a63d075b0f2ae9c7c3e3098db93779c7f9840da0f4db9c2f8c84'
+    '54f4edd1373e2b64ee2e68350d916e120b746d706c69647879363171180322186170706c69636174696f6e2f6f637465742d73747265616d3230f293'
+    'f5acf4310562d4a41f6620167fe6d83761a98d36738908ce5c87761642710e55352a396276a42eda92ff5856f46f6d7576a91434bd3dc4c45cc0635e'
+    'b2ad5da658727e5442ca0f88ace82f902f000000001976a91427b27c89eaebf68d063c107241584c07e5a6ccc688ac00000000'
+)
+
+
+TRUSTED = [
+    "H1 (named hypothesis) SHA-256 and RIPEMD-160 are collision resistant; in the proofs they are uninterpreted functions of the "
+    "bytes fed with fixed output length, so an obligation `digest == sha256(spec pre-image)` is only discharged when the real code "
+    "feeds exactly the specification pre-image",
+    "H2 (named hypothesis) ECDSA over secp256k1 is existentially unforgeable: without the channel's private key no signature verifies "
+    "for a digest the key never signed.  With H1, H2 and the proved facts `is_signed_by == ECDSA-verify(channel key, signature, "
+    "spec digest)` and `the digest input is injective in (first input, channel hash, message)`, a signed object whose content, "
+    "channel, signature or first input was changed does not validate.  The proofs themselves do NOT use H2.",
+    "libsecp256k1 through coincurve (uninterpreted, ground facts only): coincurve.PrivateKey(secret) accepts exactly 0 < secret < n "
+    "and has the public key serP(secret*G) (33 bytes, prefix 02/03, a valid point); PrivateKey.sign(msg, hasher) returns the DER "
+    "encoding (8..72 bytes) of the deterministic ECDSA signature of hasher(msg); secp256k1_ecdsa_sign + serialize_compact give the "
+    "same signature as 64 bytes r||s, which is in range and verifies under the signer's public key (correctness of ECDSA); "
+    "signature_parse_compact accepts exactly r, s < n; ecdsa_verify(normalize(parse(x)), digest, key) is ECDSA verification of x "
+    "(either s or n - s accepted); PublicKey(data) accepts exactly the valid compressed points.  'Verifies with an independent "
+    "secp256k1 implementation' is therefore ASSUMED in the deductive part and CHECKED only by the bounded stand-ins (pure-Python "
+    "verifier in this file).",
+    "cffi: ffi.new allocates a fresh object, ffi.buffer(obj, n) reads the n bytes the library wrote",
+    "protobuf: SerializeToString is a deterministic function of the message content and ParseFromString its inverse on what it "
+    "produced (stand-in ClaimMsg: the serialisation is an arbitrary symbolic byte string); real protobuf messages only in the "
+    "bounded stand-ins",
+    "Base58 numeral: Base58.decode(Base58.encode(b)) == b (property C06), used for the claim address of the legacy digest",
+    "struct / io.BytesIO / int.to_bytes / hexlify / [::-1] models of the engine (as in C05); bytearray().append/extend/bytes() "
+    "behave as concatenation (contract-file model _ByteArray)",
+]
+NOT_DECIDED = [
+    "agreement with an independent secp256k1 implementation for ALL keys and transactions (assumed via TRUSTED; exercised by the "
+    "bounded stand-ins on 24 wallet transactions, 6 signed objects with about 12000 mutations and 3 recorded pairs)",
+    "more than 2 inputs / 2 outputs symbolically (the loop bodies are proved per element with arbitrary content; the bounded "
+    "stand-ins sign up to 5 inputs); spending time-locked script-hash outputs (`extra_keys` branch of Transaction.sign, "
+    "`Input.spend_time_lock`); segwit inputs",
+    "the real address table: that `Ledger.get_private_key_for_address` returns the key whose public key hashes to the address is the "
+    "database / key-derivation invariant of C06 (deductive part: duck-typed table; bounded part: the real Ledger + sqlite Database)",
+    "channel public keys stored DER-wrapped (asn1crypto path of Channel.public_key_bytes) and the legacy claim parser "
+    "(schema/compat.py) symbolically - only through the recorded vectors; in the 2018 format the version / curve-type tags of the "
+    "signature record are outside the signed bytes by design (flipping them keeps the same content validating)",
+    "is_signed_by does not compare the channel argument's claim hash with the channel hash stored in the claim: two channel outputs "
+    "publishing the SAME key both validate the claim (callers look the channel up by that stored id); the deductive clause is the "
+    "one the statement needs: the key of the channel ARGUMENT decides",
+    "robustness remark (not a violation of the statement, which only asks that a changed object does not validate): for a signature "
+    "whose r or s is >= the group order is_signed_by raises AssertionError instead of returning False, an invalid channel key "
+    "raises ValueError, a claim that no longer parses raises DecodeError / UnicodeDecodeError; `Ledger.resolve` does not catch them",
+    "placeholder signatures (`Output.sign(channel, first_input_id=b'placeholder txid:nout')` used for fee estimation) are outside the "
+    "statement; the bounded daemon-flow cases check that the final signature made after funding binds the real first input",
+]
+ASSUMPTIONS = [
+    "no input of a wallet-signed transaction spends the null outpoint (that is a coinbase input, whose script slot holds raw bytes)",
+    "deductive part: spent outputs of Transaction.sign are pay-to-pubkey-hash; leftover input signatures are at most 75 bytes and "
+    "leftover public keys 33 bytes; output scripts of the sign proof and of the 2x2 pre-image shape are below 253 bytes (every "
+    "compact-size range of input and output scripts is covered by the other shapes); channel keys are 33-byte compressed keys; "
+    "message bytes are at most 60000 bytes; channel signatures are 64 bytes, channel hashes 20 bytes",
+]
